@@ -81,29 +81,65 @@ Section RT.
     rewrite next_step by assumption. cbn [sbind]. rewrite set_ch_stepS. reflexivity.
   Qed.
 
+  Lemma peek_rune_pending : forall a rest last pos l k ll ws, a <> NOCHAR ->
+    peek_rune (PS (mkS rest last pos l k ll a ws) None) = POk a (PS (mkS rest last pos l k ll a ws) None).
+  Proof.
+    intros a rest last pos l k ll ws Ha. unfold peek_rune. cbn [p_look PS]. unfold lift_s, sc_peek. cbn [p_sc p_look PS s_ch mkS].
+    apply Z.eqb_neq in Ha. rewrite Ha. reflexivity.
+  Qed.
+
+  Lemma plain_str_ok : forall s, Forall plain_char s -> str_ok s.
+  Proof. intros s H. induction H; constructor; assumption. Qed.
+
+  (** the first character of a string body followed by its closing quote *)
+  Lemma str_head : forall s a q, str_ok s -> a :: q = s ++ [34] -> ascii a /\ a <> 10.
+  Proof.
+    intros s a q Hs E. inversion Hs as [|c s' Hc _|s' _|c s' Hc _]; subst; cbn in E; injection E as -> _;
+      try (destruct (plain_ascii _ Hc) as (? & ? & _); auto); unfold ascii; split; lia.
+  Qed.
+
+  Lemma str_okb_aux_ok : forall n s, str_okb_aux n s = true -> str_ok s.
+  Proof.
+    induction n as [|n IH]; intros s H; [discriminate|]. cbn [str_okb_aux] in H.
+    destruct s as [|c t]; [constructor|].
+    assert (Hgen : forall c t, ((32 <=? c) && (c <? 127) && negb (c =? 34) && negb (c =? 92) && str_okb_aux n t) = true ->
+                   plain_char c /\ str_ok t).
+    { intros c' t' H'. repeat (apply andb_true_iff in H'; destruct H' as [H' ?]).
+      split; [|apply IH; assumption]. unfold plain_char.
+      repeat match goal with X : negb _ = true |- _ => apply negb_true_iff, Z.eqb_neq in X end. lia. }
+    destruct (Z.eq_dec c 92) as [->|Hn].
+    - destruct t as [|c1 t1]; [exfalso; apply Hgen in H; destruct H as ((_ & _ & H) & _); apply H; reflexivity|].
+      destruct (Z.eq_dec c1 34) as [->|Hn1].
+      + apply str_esc_quote. apply IH. exact H.
+      + assert (H' : ((32 <=? c1) && (c1 <? 127) && negb (c1 =? 34) && negb (c1 =? 92) && str_okb_aux n t1) = true).
+        { destruct c1 as [|p|p]; try exact H. do 6 (destruct p as [p|p|]; try exact H); contradiction Hn1; reflexivity. }
+        apply Hgen in H'. destruct H' as (Hc1 & Ht1). apply str_esc; assumption.
+    - assert (H' : ((32 <=? c) && (c <? 127) && negb (c =? 34) && negb (c =? 92) && str_okb_aux n t) = true).
+      { destruct c as [|p|p]; try exact H. do 7 (destruct p as [p|p|]; try exact H); contradiction Hn; reflexivity. }
+      apply Hgen in H'. destruct H' as (Hc & Ht). apply str_plain; assumption.
+  Qed.
+
+  Lemma str_okb_ok : forall s, str_okb s = true -> str_ok s.
+  Proof. intros s H. exact (str_okb_aux_ok _ _ H). Qed.
+
   (** reading the rest of a string literal: pending character [a], then [q], where [a :: q] is the
       remaining content [s] followed by the closing quote; [c2] is the character after the quote *)
-  Lemma string_loop_plain : forall s f a q c2 r tokpos racc last pos l k ll ws,
-    (length s < f)%nat -> Forall plain_char s -> a :: q = s ++ [34] -> ascii c2 ->
+  Lemma string_loop_plain : forall f s a q c2 r tokpos racc last pos l k ll ws,
+    (length s < f)%nat -> str_ok s -> a :: q = s ++ [34] -> ascii c2 ->
     string_loop f tokpos racc (PS (mkS (q ++ c2 :: r) last pos l k ll a ws) None)
     = POk (rev racc ++ s) (PS (stepS c2 r (pos + blen s) l (k + blen s) ll c2 ws) None).
   Proof.
-    induction s as [|b s IH]; intros f a q c2 r tokpos racc last pos l k ll ws Hf Hs Haq Hc2.
-    - cbn [app] in Haq. injection Haq as -> ->. destruct f as [|f]; [cbn in Hf; lia|].
+    induction f as [|f IH]; intros s a q c2 r tokpos racc last pos l k ll ws Hf Hs Haq Hc2; [lia|].
+    inversion Hs as [|b s' Hb Hs'|s' Hs'|b s' Hb Hs']; subst.
+    - cbn [app] in Haq. injection Haq as -> ->.
       cbn [string_loop app]. unfold bind at 1.
       rewrite next_rune_plain by (try assumption; unfold ascii; lia). cbv beta iota.
       change (34 =? EOF) with false. change (34 =? c_quote) with true. cbv iota.
       unfold ret. rewrite blen_nil, !Z.add_0_r, app_nil_r. reflexivity.
-    - cbn [app] in Haq. injection Haq as -> Hq. inversion Hs as [|? ? Hb Hs']; subst.
+    - cbn [app] in Haq. injection Haq as -> Hq.
       destruct (plain_ascii b Hb) as (Hba & Hb10 & Hb34 & Hb92).
-      destruct f as [|f]; [cbn in Hf; lia|].
-      (* the next pending character *)
-      destruct (s ++ [34]) as [|a' q'] eqn:Es; [destruct s; discriminate|].
-      assert (Ha' : ascii a' /\ a' <> 10).
-      { destruct s as [|s0 s1]; cbn in Es; injection Es as <- _.
-        - unfold ascii. lia.
-        - inversion Hs' as [|? ? H0 _]; subst. destruct (plain_ascii _ H0) as (? & ? & _). auto. }
-      destruct Ha' as (Haa' & Ha10').
+      destruct (s' ++ [34]) as [|a' q'] eqn:Es; [destruct s'; discriminate|].
+      destruct (str_head s' a' q' Hs' (eq_sym Es)) as (Haa' & Ha10'). subst q.
       cbn [string_loop app]. unfold bind at 1.
       rewrite next_rune_plain by assumption. cbv beta iota. rewrite stepS_plain by assumption.
       assert (E2 : (b =? EOF) = false) by (apply Z.eqb_neq; unfold ascii, EOF in *; lia).
@@ -111,10 +147,149 @@ Section RT.
       assert (E4 : (b =? c_nl) = false) by (apply Z.eqb_neq; assumption).
       assert (E5 : (b =? c_bslash) = false) by (apply Z.eqb_neq; assumption).
       rewrite E2, E3, E4, E5. rewrite (utf8_encode_ascii b Hba). cbn [rev_append].
-      rewrite (IH f a' q' c2 r tokpos (b :: racc) [a'] (pos + 1) l (k + 1) ll ws); try assumption; [|cbn in Hf; lia|reflexivity].
+      rewrite (IH s' a' q' c2 r tokpos (b :: racc) [a'] (pos + 1) l (k + 1) ll ws); try assumption; [|cbn in Hf; lia|symmetry; exact Es].
       cbn [rev]. rewrite <- app_assoc. cbn [app]. rewrite blen_cons.
-      replace (pos + 1 + blen s) with (pos + (1 + blen s)) by lia.
-      replace (k + 1 + blen s) with (k + (1 + blen s)) by lia. reflexivity.
+      replace (pos + 1 + blen s') with (pos + (1 + blen s')) by lia.
+      replace (k + 1 + blen s') with (k + (1 + blen s')) by lia. reflexivity.
+    - (* escaped quote *)
+      cbn [app] in Haq. injection Haq as -> Hq.
+      destruct (s' ++ [34]) as [|a' q'] eqn:Es; [destruct s'; discriminate|].
+      destruct (str_head s' a' q' Hs' (eq_sym Es)) as (Haa' & Ha10'). subst q.
+      cbn [string_loop app]. unfold bind at 1.
+      rewrite next_rune_plain by (unfold ascii; lia). cbv beta iota. rewrite stepS_plain by discriminate.
+      change (92 =? EOF) with false. change (92 =? c_quote) with false. change (92 =? c_nl) with false.
+      change (92 =? c_bslash) with true. cbv iota. unfold bind at 1.
+      rewrite peek_rune_pending by discriminate. change (34 =? c_quote) with true. cbv iota. unfold bind at 1.
+      rewrite next_rune_plain by (try assumption; unfold ascii; lia). rewrite stepS_plain by assumption.
+      rewrite (IH s' a' q' c2 r tokpos (c_quote :: c_bslash :: racc) [a'] (pos + 1 + 1) l (k + 1 + 1) ll ws);
+        try assumption; [|cbn in Hf; lia|symmetry; exact Es].
+      cbn [rev]. rewrite <- !app_assoc. cbn [app]. rewrite !blen_cons.
+      replace (pos + 1 + 1 + blen s') with (pos + (1 + (1 + blen s'))) by lia.
+      replace (k + 1 + 1 + blen s') with (k + (1 + (1 + blen s'))) by lia. reflexivity.
+    - (* backslash followed by a plain character *)
+      cbn [app] in Haq. injection Haq as -> Hq. subst q.
+      destruct (plain_ascii b Hb) as (Hba & Hb10 & Hb34 & Hb92).
+      cbn [string_loop app]. unfold bind at 1.
+      rewrite next_rune_plain by (try assumption; unfold ascii; lia). cbv beta iota. rewrite stepS_plain by assumption.
+      change (92 =? EOF) with false. change (92 =? c_quote) with false. change (92 =? c_nl) with false.
+      change (92 =? c_bslash) with true. cbv iota. unfold bind at 1.
+      rewrite peek_rune_pending by (unfold ascii, NOCHAR in *; lia).
+      assert (E3 : (b =? c_quote) = false) by (apply Z.eqb_neq; assumption). rewrite E3.
+      rewrite (utf8_encode_ascii 92) by (unfold ascii; lia). cbn [rev_append].
+      rewrite (IH (b :: s') b (s' ++ [34]) c2 r tokpos (92 :: racc) [b] (pos + 1) l (k + 1) ll ws);
+        try assumption; [|cbn in Hf |- *; lia|apply str_plain; assumption|reflexivity].
+      cbn [rev]. rewrite <- !app_assoc. cbn [app]. rewrite !blen_cons.
+      replace (pos + 1 + (1 + blen s')) with (pos + (1 + (1 + blen s'))) by lia.
+      replace (k + 1 + (1 + blen s')) with (k + (1 + (1 + blen s'))) by lia. reflexivity.
+  Qed.
+
+  (** ---- string bodies with line ends (text of CM_) *)
+
+  Definition nlz (c : Z) : Z := if c =? 10 then 1 else 0.
+
+  Lemma stepS_mk : forall c r pos l k ll x ws, 0 <= k ->
+    exists k1 ll1, 0 <= k1 /\ stepS c r pos l k ll x ws = mkS r [c] (pos + 1) (l + nlz c) k1 ll1 x ws.
+  Proof.
+    intros c r pos l k ll x ws Hk. unfold stepS, nlz. destruct (c =? 10) eqn:E.
+    - apply Z.eqb_eq in E. subst c. exists 0, (k + 1). split; [lia|reflexivity].
+    - exists (k + 1), ll. split; [lia|]. rewrite Z.add_0_r. reflexivity.
+  Qed.
+
+  Lemma stepS_eq3 : forall c r pos pos' l l' k ll x ws, pos = pos' -> l = l' ->
+    stepS c r pos l k ll x ws = stepS c r pos' l' k ll x ws.
+  Proof. intros. subst. reflexivity. Qed.
+
+  Lemma nl_count_app : forall a b, nl_count (a ++ b) = nl_count a + nl_count b.
+  Proof. induction a as [|c a IH]; intros b; cbn [app nl_count]; [reflexivity|]. rewrite IH. lia. Qed.
+
+  Lemma nl_count_cons : forall c s, nl_count (c :: s) = nlz c + nl_count s.
+  Proof. reflexivity. Qed.
+
+  Lemma strn_head : forall s a q, str_okn s -> a :: q = s ++ [34] -> ascii a.
+  Proof.
+    intros s a q Hs E. inversion Hs as [|c s' Hc _|s' _|s' _|c s' Hc _]; subst; cbn in E; injection E as -> _;
+      try (destruct (plain_ascii _ Hc) as (? & _); assumption); unfold ascii; lia.
+  Qed.
+
+  Lemma strn_head' : forall c s, str_okn (c :: s) -> ascii c.
+  Proof. intros c s H. apply (strn_head (c :: s) c (s ++ [34])); [assumption|reflexivity]. Qed.
+
+  Lemma string_loop_nl : forall f s a q c2 r tokpos racc last pos l k ll ws,
+    (length s < f)%nat -> str_okn s -> a :: q = s ++ [34] -> ascii c2 -> 0 <= k ->
+    exists k' ll', 0 <= k' /\
+    string_loop f tokpos racc (PS (mkS (q ++ c2 :: r) last pos l k ll a ws) None)
+    = POk (rev racc ++ str_val s) (PS (stepS c2 r (pos + blen s) (l + nl_count q) k' ll' c2 ws) None).
+  Proof.
+    induction f as [|f IH]; intros s a q c2 r tokpos racc last pos l k ll ws Hf Hs Haq Hc2 Hk; [lia|].
+    inversion Hs as [|b s' Hb Hs'|s' Hs'|s' Hs'|b s' Hb Hs']; subst.
+    - cbn [app] in Haq. injection Haq as -> ->.
+      cbn [string_loop app]. unfold bind at 1.
+      rewrite next_rune_plain by (try assumption; unfold ascii; lia). cbv beta iota.
+      change (34 =? EOF) with false. change (34 =? c_quote) with true. cbv iota.
+      exists k, ll. split; [assumption|]. unfold ret. cbn [str_val map nl_count]. rewrite blen_nil, !Z.add_0_r, app_nil_r. reflexivity.
+    - (* plain character *)
+      cbn [app] in Haq. injection Haq as -> Hq.
+      destruct (plain_ascii b Hb) as (Hba & Hb10 & Hb34 & Hb92).
+      destruct (s' ++ [34]) as [|a' q'] eqn:Es; [destruct s'; discriminate|].
+      pose proof (strn_head s' a' q' Hs' (eq_sym Es)) as Haa'. subst q.
+      cbn [string_loop app]. unfold bind at 1.
+      rewrite next_rune_plain by assumption. cbv beta iota.
+      destruct (stepS_mk a' (q' ++ c2 :: r) pos l k ll a' ws Hk) as (k1 & ll1 & Hk1 & Est). rewrite Est.
+      assert (E2 : (b =? EOF) = false) by (apply Z.eqb_neq; unfold ascii, EOF in *; lia).
+      assert (E3 : (b =? c_quote) = false) by (apply Z.eqb_neq; assumption).
+      assert (E4 : (b =? c_nl) = false) by (apply Z.eqb_neq; assumption).
+      assert (E5 : (b =? c_bslash) = false) by (apply Z.eqb_neq; assumption).
+      rewrite E2, E3, E4, E5. rewrite (utf8_encode_ascii b Hba). cbn [rev_append].
+      destruct (IH s' a' q' c2 r tokpos (b :: racc) [a'] (pos + 1) (l + nlz a') k1 ll1 ws) as (k' & ll' & Hk' & E);
+        try assumption; [cbn in Hf; lia|symmetry; exact Es|].
+      exists k', ll'. split; [assumption|]. rewrite E. cbn [rev]. rewrite <- app_assoc. cbn [app str_val map].
+      apply Z.eqb_neq in Hb10. rewrite Hb10. fold (str_val s'). f_equal. f_equal.
+      apply stepS_eq3; [rewrite blen_cons; lia|rewrite nl_count_cons; lia].
+    - (* line end: read as a space *)
+      cbn [app] in Haq. injection Haq as -> Hq.
+      destruct (s' ++ [34]) as [|a' q'] eqn:Es; [destruct s'; discriminate|].
+      pose proof (strn_head s' a' q' Hs' (eq_sym Es)) as Haa'. subst q.
+      cbn [string_loop app]. unfold bind at 1.
+      rewrite next_rune_plain by (try assumption; unfold ascii; lia). cbv beta iota.
+      destruct (stepS_mk a' (q' ++ c2 :: r) pos l k ll a' ws Hk) as (k1 & ll1 & Hk1 & Est). rewrite Est.
+      change (10 =? EOF) with false. change (10 =? c_quote) with false. change (10 =? c_nl) with true. cbv iota.
+      destruct (IH s' a' q' c2 r tokpos (32 :: racc) [a'] (pos + 1) (l + nlz a') k1 ll1 ws) as (k' & ll' & Hk' & E);
+        try assumption; [cbn in Hf; lia|symmetry; exact Es|].
+      exists k', ll'. split; [assumption|]. rewrite E. cbn [rev]. rewrite <- app_assoc. cbn [app str_val map].
+      change (10 =? 10) with true. cbv iota. fold (str_val s'). f_equal. f_equal.
+      apply stepS_eq3; [rewrite blen_cons; lia|rewrite nl_count_cons; lia].
+    - (* escaped quote *)
+      cbn [app] in Haq. injection Haq as -> Hq.
+      destruct (s' ++ [34]) as [|a' q'] eqn:Es; [destruct s'; discriminate|].
+      pose proof (strn_head s' a' q' Hs' (eq_sym Es)) as Haa'. subst q.
+      cbn [string_loop app]. unfold bind at 1.
+      rewrite next_rune_plain by (unfold ascii; lia). cbv beta iota. rewrite stepS_plain by discriminate.
+      change (92 =? EOF) with false. change (92 =? c_quote) with false. change (92 =? c_nl) with false.
+      change (92 =? c_bslash) with true. cbv iota. unfold bind at 1.
+      rewrite peek_rune_pending by discriminate. change (34 =? c_quote) with true. cbv iota. unfold bind at 1.
+      rewrite next_rune_plain by (try assumption; unfold ascii; lia).
+      destruct (stepS_mk a' (q' ++ c2 :: r) (pos + 1) l (k + 1) ll a' ws ltac:(lia)) as (k1 & ll1 & Hk1 & Est). rewrite Est.
+      destruct (IH s' a' q' c2 r tokpos (c_quote :: c_bslash :: racc) [a'] (pos + 1 + 1) (l + nlz a') k1 ll1 ws) as (k' & ll' & Hk' & E);
+        try assumption; [cbn in Hf; lia|symmetry; exact Es|].
+      exists k', ll'. split; [assumption|]. rewrite E. cbn [rev]. rewrite <- !app_assoc. cbn [app str_val map].
+      change (92 =? 10) with false. change (34 =? 10) with false. cbv iota. fold (str_val s'). f_equal. f_equal.
+      apply stepS_eq3; [rewrite !blen_cons; lia|rewrite !nl_count_cons; change (nlz 34) with 0; lia].
+    - (* backslash followed by anything but a quote: the backslash is an ordinary character *)
+      cbn [app] in Haq. injection Haq as -> Hq. subst q.
+      pose proof (strn_head' b s' Hs') as Hba.
+      cbn [string_loop app]. unfold bind at 1.
+      rewrite next_rune_plain by (try assumption; unfold ascii; lia). cbv beta iota.
+      destruct (stepS_mk b ((s' ++ [34]) ++ c2 :: r) pos l k ll b ws Hk) as (k1 & ll1 & Hk1 & Est). rewrite Est.
+      change (92 =? EOF) with false. change (92 =? c_quote) with false. change (92 =? c_nl) with false.
+      change (92 =? c_bslash) with true. cbv iota. unfold bind at 1.
+      rewrite peek_rune_pending by (unfold ascii, NOCHAR in *; lia).
+      assert (E3 : (b =? c_quote) = false) by (apply Z.eqb_neq; assumption). rewrite E3.
+      rewrite (utf8_encode_ascii 92) by (unfold ascii; lia). cbn [rev_append].
+      destruct (IH (b :: s') b (s' ++ [34]) c2 r tokpos (92 :: racc) [b] (pos + 1) (l + nlz b) k1 ll1 ws) as (k' & ll' & Hk' & E);
+        try assumption; [cbn in Hf |- *; lia|reflexivity|].
+      exists k', ll'. split; [assumption|]. rewrite E. cbn [rev]. rewrite <- !app_assoc.
+      change (str_val (92 :: b :: s')) with (92 :: str_val (b :: s')). cbn [app]. f_equal. f_equal.
+      apply stepS_eq3; [rewrite !blen_cons; lia|rewrite !nl_count_cons; lia].
   Qed.
 
   (** ------------------------------------------------------------ scanning printed tokens *)
@@ -319,7 +494,7 @@ Section RT.
   Lemma snoc_cons : forall (s : bytes) x, exists a q, s ++ [x] = a :: q.
   Proof. intros. destruct s; cbn; eauto. Qed.
 
-  Lemma step_version : forall s rest line off ll, Forall plain_char s -> (length s + 12 < F)%nat ->
+  Lemma step_version : forall s rest line off ll, str_ok s -> (length s + 12 < F)%nat ->
     exists st', parse_version il id F (canon line off kw_version 32 (34 :: s ++ 34 :: 10 :: rest) ll)
                 = POk (DVersion {| p_line := line; p_column := 1; p_offset := off |} s) st'
                 /\ Ready (line + 1) (off + blen (print_def (SVersion s))) rest st'.
@@ -328,10 +503,7 @@ Section RT.
     rewrite p_keyword_canon. unfold p_string, bind. rewrite next_token_scan.
     rewrite stepS_plain by discriminate.
     destruct (snoc_cons s 34) as (a & q & Eq).
-    assert (Ha : ascii a /\ a <> 10).
-    { destruct s as [|s0 s1]; cbn in Eq; injection Eq as <- _.
-      - unfold ascii. lia.
-      - inversion Hs as [|? ? H0 _]; subst. destruct (plain_ascii _ H0) as (? & ? & _). auto. }
+    assert (Ha : ascii a /\ a <> 10) by (apply (str_head s a q); [assumption|symmetry; exact Eq]).
     destruct Ha as (Haa & Ha10).
     replace (34 :: s ++ 34 :: 10 :: rest) with (34 :: a :: q ++ 10 :: rest)
       by (change (s ++ 34 :: 10 :: rest) with (s ++ [34] ++ 10 :: rest); rewrite app_assoc, Eq; reflexivity).
@@ -339,7 +511,7 @@ Section RT.
       [|left; reflexivity|unfold blen, kw_version; cbn; lia|repeat split; try reflexivity; unfold ascii; lia].
     cbn [t_typ t_pos]. change (34 =? c_quote) with true. cbn [negb].
     rewrite stepS_plain by assumption.
-    rewrite (string_loop_plain s F a q 10 rest); try assumption; try lia; [|symmetry; exact Eq|unfold ascii; lia].
+    rewrite (string_loop_plain F s a q 10 rest); try assumption; try lia; [|symmetry; exact Eq|unfold ascii; lia].
     unfold ret. cbn [rev app kwtok t_pos]. eexists. split; [reflexivity|].
     unfold stepS. change (10 =? 10) with true. cbv iota.
     replace (off + blen (print_def (SVersion s))) with (off + blen kw_version + 1 + 1 + 1 + blen s + 1).
@@ -824,51 +996,119 @@ Section RT.
 
   Lemma punct_minus : punct 45. Proof. repeat split; try reflexivity; unfold ascii; lia. Qed.
 
-  (** p.float() on a pending space followed by [-]digits and [c] *)
+  (** shape of a well-formed number literal *)
+  Lemma num_shape : forall n, wf_num n ->
+    exists d0 t0, num_lit n = d0 :: lit_tail t0 (n_frac n) (n_exp n) /\ is_decimal d0 = true
+                  /\ Forall (fun a => is_decimal a = true) t0 /\ (d0 <> 48 \/ t0 = []) /\ wf_frac (n_frac n) /\ wf_exp (n_exp n)
+                  /\ parse_float (d0 :: lit_tail t0 (n_frac n) (n_exp n)) <> None.
+  Proof.
+    intros n ((d0 & t0 & Ed & Hd & Ht & Hz) & Hf & He & Hp). exists d0, t0. unfold num_lit in *. rewrite Ed in *.
+    split; [reflexivity|]. repeat (split; [assumption|]). exact Hp.
+  Qed.
+
+  Lemma num_typ_ok : forall typ, typ = TInt \/ typ = TFloat -> (negb (typ =? TInt) && negb (typ =? TFloat)) = false.
+  Proof. intros typ [-> | ->]; reflexivity. Qed.
+
+  (** a pending whitespace character, then a number literal, then [c] *)
+  Lemma scan_ws_lit : forall w d0 t0 fp ex c r last pos l k ll ws,
+    is_ws ws w = true -> ws_ok ws -> (length (lit_tail t0 fp ex) + 5 < F)%nat -> 0 <= k ->
+    is_decimal d0 = true -> Forall (fun a => is_decimal a = true) t0 -> (d0 <> 48 \/ t0 = []) -> wf_frac fp -> wf_exp ex -> numterm c ->
+    exists typ, (typ = TInt \/ typ = TFloat) /\
+      sc_scan (mkS ((d0 :: lit_tail t0 fp ex) ++ c :: r) last pos l k ll w ws)
+      = SOk ({| t_typ := typ; t_pos := {| p_line := l; p_column := k + 1; p_offset := pos |}; t_txt := d0 :: lit_tail t0 fp ex |},
+             stepS c r (pos + 1 + blen (lit_tail t0 fp ex)) l (k + 1 + blen (lit_tail t0 fp ex)) ll c ws).
+  Proof.
+    intros w d0 t0 fp ex c r last pos l k ll ws Hw Hws HF Hk Hd Ht Hz Hfp Hex Hc. destruct (decimal_ge d0 Hd) as (H33 & Ha0 & H10).
+    cbn [app]. rewrite sc_scan_skip1; try assumption; [|lia|apply ws_printable; assumption].
+    rewrite stepS_plain by assumption.
+    destruct (scan_body_literal il id F d0 t0 fp ex c r (pos + 1) l (k + 1) ll w ws ltac:(lia) ltac:(lia) Hd Ht Hz Hfp Hex Hc)
+      as (typ & Hty & E).
+    exists typ. split; [exact Hty|]. rewrite E. f_equal. f_equal. apply tok_eq. lia.
+  Qed.
+
+  (** the pending character is the first digit of a number literal (after a '-') *)
+  Lemma scan_direct_lit : forall d0 t0 fp ex c r pos l k ll ws,
+    ws_ok ws -> (length (lit_tail t0 fp ex) + 4 < F)%nat -> 0 < k ->
+    is_decimal d0 = true -> Forall (fun a => is_decimal a = true) t0 -> (d0 <> 48 \/ t0 = []) -> wf_frac fp -> wf_exp ex -> numterm c ->
+    exists typ, (typ = TInt \/ typ = TFloat) /\
+      sc_scan (mkS (lit_tail t0 fp ex ++ c :: r) [d0] pos l k ll d0 ws)
+      = SOk ({| t_typ := typ; t_pos := {| p_line := l; p_column := k; p_offset := pos - 1 |}; t_txt := d0 :: lit_tail t0 fp ex |},
+             stepS c r (pos + blen (lit_tail t0 fp ex)) l (k + blen (lit_tail t0 fp ex)) ll c ws).
+  Proof.
+    intros d0 t0 fp ex c r pos l k ll ws Hws HF Hk Hd Ht Hz Hfp Hex Hc. destruct (decimal_ge d0 Hd) as (H33 & Ha0 & H10).
+    rewrite sc_scan_direct; cbn [s_ch s_ws mkS]; [|unfold ascii, NOCHAR in *; lia|apply ws_printable; assumption].
+    apply scan_body_literal; assumption.
+  Qed.
+
+  (** p.float() on a pending space followed by a (signed) number literal and [c] *)
   Lemma p_float_ws : forall n c r last pos l k ll,
-    wf_num n -> numterm c -> (length (print_num n) + 3 < F)%nat -> 0 <= k ->
+    wf_num n -> numterm c -> (length (print_num n) + 5 < F)%nat -> 0 <= k ->
     p_float il id F (PS (mkS (print_num n ++ c :: r) last pos l k ll 32 ws_default) None)
     = POk (num_bits n) (PS (stepS c r (pos + blen (print_num n)) l (k + blen (print_num n)) ll c ws_default) None).
   Proof.
-    intros [neg ds] c r last pos l k ll ((d0 & t & Hds & Hd & Ht & Hz) & Hpf) Hc HF Hk.
-    cbn [n_neg n_digits] in *. subst ds. unfold print_num, num_bits in *. cbn [n_neg n_digits] in *.
-    destruct (parse_float (d0 :: t)) as [bits|] eqn:Epf; [|contradiction Hpf; reflexivity].
+    intros n c r last pos l k ll Hn Hc HF Hk.
+    destruct (num_shape n Hn) as (d0 & t0 & El & Hd & Ht & Hz & Hfp & Hex & Hpf).
+    unfold print_num, num_bits in *. rewrite El in *.
+    destruct (parse_float (d0 :: lit_tail t0 (n_frac n) (n_exp n))) as [bits|] eqn:Epf; [|contradiction Hpf; reflexivity].
     destruct (decimal_ge d0 Hd) as (H33 & Ha0 & H10).
-    unfold p_float, optional_minus, bind. rewrite peek_token_scan. destruct neg; cbn [app]; cbn [app length] in HF.
+    unfold p_float, optional_minus, bind. rewrite peek_token_scan. destruct (n_neg n); cbn [app]; cbn [app length] in HF.
     - rewrite (scan_ws_punct 32); try assumption; [|exact ws32|exact ws_def|lia|exact punct_minus|lia].
       cbn [t_typ]. change (45 =? c_minus) with true. cbv beta iota.
       erewrite p_token_look by reflexivity. unfold ret at 1. rewrite next_token_scan.
       rewrite stepS_plain by assumption.
-      rewrite scan_direct_uint; try assumption; try lia; [|exact ws_def].
-      cbn [t_typ t_txt]. change (TInt =? TInt) with true. cbn [negb andb]. rewrite Epf. unfold ret.
+      destruct (scan_direct_lit d0 t0 (n_frac n) (n_exp n) c r (pos + 1 + 1) l (k + 1 + 1) ll ws_default ws_def ltac:(lia) ltac:(lia)
+                  Hd Ht Hz Hfp Hex Hc) as (typ & Hty & E).
+      rewrite E. cbn [t_typ t_txt]. rewrite (num_typ_ok typ Hty). rewrite Epf. unfold ret.
       f_equal. f_equal. apply stepS_eq; rewrite !blen_cons; lia.
-    - change (d0 :: t ++ c :: r) with ((d0 :: t) ++ c :: r).
-      rewrite (scan_ws_uint 32); try assumption; [|exact ws32|exact ws_def|lia].
-      cbn [t_typ]. change (TInt =? c_minus) with false. cbv beta iota. unfold ret at 1. rewrite next_token_look.
-      cbn [t_typ t_txt]. change (TInt =? TInt) with true. cbn [negb andb]. rewrite Epf. unfold ret.
+    - destruct (scan_ws_lit 32 d0 t0 (n_frac n) (n_exp n) c r last pos l k ll ws_default ws32 ws_def ltac:(lia) Hk Hd Ht Hz Hfp Hex Hc)
+        as (typ & Hty & E).
+      change (d0 :: lit_tail t0 (n_frac n) (n_exp n) ++ c :: r) with ((d0 :: lit_tail t0 (n_frac n) (n_exp n)) ++ c :: r).
+      rewrite E. cbn [t_typ].
+      assert (Enm : (typ =? c_minus) = false) by (destruct Hty as [-> | ->]; reflexivity). rewrite Enm.
+      cbv beta iota. unfold ret at 1. rewrite next_token_look.
+      cbn [t_typ t_txt]. rewrite (num_typ_ok typ Hty). rewrite Epf. unfold ret.
       f_equal. f_equal. apply stepS_eq; rewrite !blen_cons; lia.
   Qed.
 
   (** p.string() on a pending space followed by a quoted plain string and [c2] *)
   Lemma p_string_ws : forall s c2 r last pos l k ll,
-    Forall plain_char s -> ascii c2 -> (length s + 3 < F)%nat -> 0 <= k ->
+    str_ok s -> ascii c2 -> (length s + 3 < F)%nat -> 0 <= k ->
     p_string il id F (PS (mkS (34 :: s ++ 34 :: c2 :: r) last pos l k ll 32 ws_default) None)
     = POk s (PS (stepS c2 r (pos + blen s + 2) l (k + blen s + 2) ll c2 ws_default) None).
   Proof.
     intros s c2 r last pos l k ll Hs Hc2 HF Hk. unfold p_string, bind. rewrite next_token_scan.
     destruct (snoc_cons s 34) as (a & q & Eq).
-    assert (Ha : ascii a /\ a <> 10).
-    { destruct s as [|s0 s1]; cbn in Eq; injection Eq as <- _.
-      - unfold ascii. lia.
-      - inversion Hs as [|? ? H0 _]; subst. destruct (plain_ascii _ H0) as (? & ? & _). auto. }
+    assert (Ha : ascii a /\ a <> 10) by (apply (str_head s a q); [assumption|symmetry; exact Eq]).
     destruct Ha as (Haa & Ha10).
     replace (34 :: s ++ 34 :: c2 :: r) with (34 :: a :: q ++ c2 :: r)
       by (change (s ++ 34 :: c2 :: r) with (s ++ [34] ++ c2 :: r); rewrite app_assoc, Eq; reflexivity).
     rewrite (scan_ws_punct 32); try assumption; try lia; [|exact ws32|exact ws_def|repeat split; try reflexivity; unfold ascii; lia].
     cbn [t_typ t_pos]. change (34 =? c_quote) with true. cbn [negb].
     rewrite stepS_plain by assumption.
-    rewrite (string_loop_plain s F a q c2 r); try assumption; try lia; [|symmetry; exact Eq].
+    rewrite (string_loop_plain F s a q c2 r); try assumption; try lia; [|symmetry; exact Eq].
     cbn [rev app]. f_equal. f_equal. apply stepS_eq; lia.
+  Qed.
+
+  Lemma p_string_nl_ws : forall s c2 r last pos l k ll,
+    str_okn s -> ascii c2 -> (length s + 3 < F)%nat -> 0 <= k ->
+    exists k' ll', 0 <= k' /\
+    p_string il id F (PS (mkS (34 :: s ++ 34 :: c2 :: r) last pos l k ll 32 ws_default) None)
+    = POk (str_val s) (PS (stepS c2 r (pos + blen s + 2) (l + nl_count s) k' ll' c2 ws_default) None).
+  Proof.
+    intros s c2 r last pos l k ll Hs Hc2 HF Hk. unfold p_string, bind. rewrite next_token_scan.
+    destruct (snoc_cons s 34) as (a & q & Eq).
+    assert (Haa : ascii a) by (apply (strn_head s a q); [assumption|symmetry; exact Eq]).
+    replace (34 :: s ++ 34 :: c2 :: r) with (34 :: a :: q ++ c2 :: r)
+      by (change (s ++ 34 :: c2 :: r) with (s ++ [34] ++ c2 :: r); rewrite app_assoc, Eq; reflexivity).
+    rewrite (scan_ws_punct 32); try assumption; try lia; [|exact ws32|exact ws_def|repeat split; try reflexivity; unfold ascii; lia].
+    cbn [t_typ t_pos]. change (34 =? c_quote) with true. cbn [negb].
+    destruct (stepS_mk a (q ++ c2 :: r) (pos + 1) l (k + 1) ll a ws_default ltac:(lia)) as (k1 & ll1 & Hk1 & Est). rewrite Est.
+    destruct (string_loop_nl F s a q c2 r {| p_line := l; p_column := k + 1; p_offset := pos |} [] [a] (pos + 1 + 1) (l + nlz a) k1 ll1 ws_default)
+      as (k' & ll' & Hk' & E); try assumption; try lia; [symmetry; exact Eq|].
+    exists k', ll'. split; [assumption|]. rewrite E. cbn [rev app]. f_equal. f_equal.
+    apply stepS_eq3; [lia|].
+    assert (En : nl_count s = nl_count (a :: q)) by (rewrite <- Eq, nl_count_app; cbn [nl_count]; change (34 =? 10) with false; cbv iota; lia).
+    rewrite En, nl_count_cons. lia.
   Qed.
 
   Lemma atoi_digits : forall ds, wf_digits ds -> uint_value ds < 2 ^ 63 -> atoi ds = Some (uint_value ds).
@@ -1403,35 +1643,41 @@ Section RT.
     unfold ret. f_equal. f_equal. apply stepS_eq; rewrite En, blen_cons; lia.
   Qed.
 
-  (** value description:  <space> [-]digits <space> "text"  followed by [c2] *)
+  (** value description:  <space> number <space> "text"  followed by [c2] *)
   Lemma value_desc_ws : forall v c2 r last pos l k ll,
-    wf_value v -> ascii c2 -> (length (print_num (fst v)) + length (snd v) + 6 < F)%nat -> 0 <= k ->
+    wf_value v -> ascii c2 -> (length (print_num (fst v)) + length (snd v) + 8 < F)%nat -> 0 <= k ->
     parse_value_description il id F
       (PS (mkS (print_num (fst v) ++ 32 :: 34 :: snd v ++ 34 :: c2 :: r) last pos l k ll 32 ws_default) None)
     = POk {| vd_pos := {| p_line := l; p_column := k + 1; p_offset := pos |}; vd_value := num_bits (fst v);
              vd_description := snd v |}
           (PS (stepS c2 r (pos + blen (print_num (fst v)) + blen (snd v) + 3) l (k + blen (print_num (fst v)) + blen (snd v) + 3) ll c2 ws_default) None).
   Proof.
-    intros [[neg ds] s] c2 r last pos l k ll (((d0 & t & Hds & Hd & Ht & Hz) & Hpf) & Hs) Hc2 HF Hk.
-    cbn [fst snd n_neg n_digits] in *. subst ds. unfold print_num, num_bits in *. cbn [n_neg n_digits] in *.
-    destruct (parse_float (d0 :: t)) as [bits|] eqn:Epf; [|contradiction Hpf; reflexivity].
+    intros [n s] c2 r last pos l k ll (Hn & Hs) Hc2 HF Hk. cbn [fst snd] in *.
+    destruct (num_shape n Hn) as (d0 & t0 & El & Hd & Ht & Hz & Hfp & Hex & Hpf).
+    unfold print_num, num_bits in *. rewrite El in *.
+    destruct (parse_float (d0 :: lit_tail t0 (n_frac n) (n_exp n))) as [bits|] eqn:Epf; [|contradiction Hpf; reflexivity].
     destruct (decimal_ge d0 Hd) as (H33 & Ha0 & H10).
-    pose proof (blen_nonneg t) as Hnt. pose proof (blen_nonneg s) as Hns.
-    unfold parse_value_description. unfold bind at 1. rewrite peek_token_scan. destruct neg; cbn [app]; cbn [app length] in HF.
+    pose proof (blen_nonneg (lit_tail t0 (n_frac n) (n_exp n))) as Hnt. pose proof (blen_nonneg s) as Hns.
+    unfold parse_value_description. unfold bind at 1. rewrite peek_token_scan. destruct (n_neg n); cbn [app]; cbn [app length] in HF.
     - rewrite (scan_ws_punct 32) by side. unfold bind at 1.
       unfold p_float, optional_minus. unfold bind at 1. unfold bind at 1. rewrite peek_token_look.
       cbn [t_typ]. change (45 =? c_minus) with true. cbv beta iota. unfold bind at 1.
       erewrite p_token_look by reflexivity. unfold ret at 1. unfold bind at 1. rewrite next_token_scan.
       rewrite stepS_plain by assumption.
-      rewrite scan_direct_uint; try assumption; try lia; [|exact ws_def|exact numterm_sp].
-      cbn [t_typ t_txt]. change (TInt =? TInt) with true. cbn [negb andb]. rewrite Epf. unfold ret at 1.
+      destruct (scan_direct_lit d0 t0 (n_frac n) (n_exp n) 32 (34 :: s ++ 34 :: c2 :: r) (pos + 1 + 1) l (k + 1 + 1) ll ws_default ws_def
+                  ltac:(lia) ltac:(lia) Hd Ht Hz Hfp Hex numterm_sp) as (typ & Hty & E).
+      rewrite E. cbn [t_typ t_txt]. rewrite (num_typ_ok typ Hty). rewrite Epf. unfold ret at 1.
       rewrite stepS_plain by discriminate. unfold bind at 1.
       rewrite p_string_ws by side. unfold ret. cbn [t_pos]. f_equal. f_equal. apply stepS_eq; rewrite !blen_cons; lia.
-    - change (d0 :: t ++ 32 :: 34 :: s ++ 34 :: c2 :: r) with ((d0 :: t) ++ 32 :: 34 :: s ++ 34 :: c2 :: r).
-      rewrite (scan_ws_uint 32); try assumption; [|exact ws32|exact ws_def|lia|exact numterm_sp]. unfold bind at 1.
+    - change (d0 :: lit_tail t0 (n_frac n) (n_exp n) ++ 32 :: 34 :: s ++ 34 :: c2 :: r)
+        with ((d0 :: lit_tail t0 (n_frac n) (n_exp n)) ++ 32 :: 34 :: s ++ 34 :: c2 :: r).
+      destruct (scan_ws_lit 32 d0 t0 (n_frac n) (n_exp n) 32 (34 :: s ++ 34 :: c2 :: r) last pos l k ll ws_default ws32 ws_def
+                  ltac:(lia) Hk Hd Ht Hz Hfp Hex numterm_sp) as (typ & Hty & E).
+      rewrite E. unfold bind at 1.
       unfold p_float, optional_minus. unfold bind at 1. unfold bind at 1. rewrite peek_token_look.
-      cbn [t_typ]. change (TInt =? c_minus) with false. cbv beta iota. unfold ret at 1. unfold bind at 1.
-      rewrite next_token_look. cbn [t_typ t_txt]. change (TInt =? TInt) with true. cbn [negb andb]. rewrite Epf. unfold ret at 1.
+      cbn [t_typ]. assert (Enm : (typ =? c_minus) = false) by (destruct Hty as [-> | ->]; reflexivity). rewrite Enm.
+      cbv beta iota. unfold ret at 1. unfold bind at 1.
+      rewrite next_token_look. cbn [t_typ t_txt]. rewrite (num_typ_ok typ Hty). rewrite Epf. unfold ret at 1.
       rewrite stepS_plain by discriminate. unfold bind at 1.
       rewrite p_string_ws by side. unfold ret. cbn [t_pos]. f_equal. f_equal. apply stepS_eq; rewrite !blen_cons; lia.
   Qed.
@@ -1479,17 +1725,19 @@ Section RT.
   Qed.
 
   (** the first token of a value description is a number or a minus sign *)
-  Lemma value_peek : forall v X last pos l k ll, wf_value v -> (length (print_num (fst v)) + 3 < F)%nat -> 0 <= k ->
+  Lemma value_peek : forall v X last pos l k ll, wf_value v -> (length (print_num (fst v)) + 5 < F)%nat -> 0 <= k ->
     exists t st1, peek_token (PS (mkS (print_num (fst v) ++ 32 :: X) last pos l k ll 32 ws_default) None) = POk t st1
-                  /\ (t_typ t = TInt \/ t_typ t = 45).
+                  /\ (t_typ t = TInt \/ t_typ t = TFloat \/ t_typ t = 45).
   Proof.
-    intros [[neg ds] s] X last pos l k ll (((d0 & t & Hds & Hd & Ht & Hz) & _) & _) HF Hk.
-    cbn [fst snd n_neg n_digits] in *. subst ds. unfold print_num in *. cbn [n_neg n_digits] in *.
-    destruct (decimal_ge d0 Hd) as (H33 & Ha0 & H10). rewrite peek_token_scan. destruct neg; cbn [app]; cbn [app length] in HF.
-    - rewrite (scan_ws_punct 32) by side. eexists; eexists; split; [reflexivity|right; reflexivity].
-    - change (d0 :: t ++ 32 :: X) with ((d0 :: t) ++ 32 :: X).
-      rewrite (scan_ws_uint 32); try assumption; [|exact ws32|exact ws_def|lia|exact numterm_sp].
-      eexists; eexists; split; [reflexivity|left; reflexivity].
+    intros [n s] X last pos l k ll (Hn & _) HF Hk. cbn [fst snd] in *.
+    destruct (num_shape n Hn) as (d0 & t0 & El & Hd & Ht & Hz & Hfp & Hex & Hpf).
+    unfold print_num in *. rewrite El in *.
+    destruct (decimal_ge d0 Hd) as (H33 & Ha0 & H10). rewrite peek_token_scan. destruct (n_neg n); cbn [app]; cbn [app length] in HF.
+    - rewrite (scan_ws_punct 32) by side. eexists; eexists; split; [reflexivity|right; right; reflexivity].
+    - change (d0 :: lit_tail t0 (n_frac n) (n_exp n) ++ 32 :: X) with ((d0 :: lit_tail t0 (n_frac n) (n_exp n)) ++ 32 :: X).
+      destruct (scan_ws_lit 32 d0 t0 (n_frac n) (n_exp n) 32 X last pos l k ll ws_default ws32 ws_def ltac:(lia) Hk Hd Ht Hz Hfp Hex numterm_sp)
+        as (typ & Hty & E).
+      rewrite E. eexists; eexists; split; [reflexivity|]. cbn [t_typ]. destruct Hty; auto.
   Qed.
 
   Lemma print_values_head : forall vs X, exists T, print_values vs ++ 32 :: X = 32 :: T.
@@ -1522,7 +1770,7 @@ Section RT.
       pose proof (blen_nonneg (print_num (fst v))). pose proof (blen_nonneg (snd v)).
       cbn [value_descriptions_loop]. unfold bind at 1.
       destruct (value_peek v (34 :: snd v ++ 34 :: 32 :: T') last P l K ll Hv) as (t & st1 & Ep & Hty); try side.
-      rewrite Ep. assert (Ens : (t_typ t =? c_semi) = false) by (destruct Hty as [-> | ->]; reflexivity).
+      rewrite Ep. assert (Ens : (t_typ t =? c_semi) = false) by (destruct Hty as [-> | [-> | ->]]; reflexivity).
       rewrite Ens. cbn [negb]. unfold bind at 1. rewrite (pvd_after_peek _ _ _ Ep).
       rewrite value_desc_ws by side. rewrite stepS_plain by discriminate.
       destruct (IH f ({| vd_pos := {| p_line := l; p_column := K + 1; p_offset := P |}; vd_value := num_bits (fst v);
@@ -1567,15 +1815,23 @@ Section RT.
   Qed.
 
   (** a quoted string is next: its quote can be peeked *)
-  Lemma quote_peek : forall s c2 r last pos l k ll, Forall plain_char s -> ascii c2 -> (1 <= F)%nat -> 0 <= k ->
+  Lemma quote_peek : forall s c2 r last pos l k ll, str_ok s -> ascii c2 -> (1 <= F)%nat -> 0 <= k ->
     exists tk st1, peek_token (PS (mkS (34 :: s ++ 34 :: c2 :: r) last pos l k ll 32 ws_default) None) = POk tk st1
                    /\ t_typ tk = 34.
   Proof.
     intros s c2 r last pos l k ll Hs Hc2 HF Hk. destruct (snoc_cons s 34) as (a & q & Eq).
-    assert (Haa : ascii a).
-    { destruct s as [|s0 s1]; cbn in Eq; injection Eq as <- _.
-      - unfold ascii. lia.
-      - inversion Hs as [|? ? H0 _]; subst. destruct (plain_ascii _ H0) as (? & _). auto. }
+    assert (Haa : ascii a) by (apply (str_head s a q); [assumption|symmetry; exact Eq]).
+    replace (34 :: s ++ 34 :: c2 :: r) with (34 :: a :: q ++ c2 :: r)
+      by (change (s ++ 34 :: c2 :: r) with (s ++ [34] ++ c2 :: r); rewrite app_assoc, Eq; reflexivity).
+    rewrite peek_token_scan. rewrite (scan_ws_punct 32) by side. eexists; eexists; split; reflexivity.
+  Qed.
+
+  Lemma quote_peek_n : forall s c2 r last pos l k ll, str_okn s -> ascii c2 -> (1 <= F)%nat -> 0 <= k ->
+    exists tk st1, peek_token (PS (mkS (34 :: s ++ 34 :: c2 :: r) last pos l k ll 32 ws_default) None) = POk tk st1
+                   /\ t_typ tk = 34.
+  Proof.
+    intros s c2 r last pos l k ll Hs Hc2 HF Hk. destruct (snoc_cons s 34) as (a & q & Eq).
+    assert (Haa : ascii a) by (apply (strn_head s a q); [assumption|symmetry; exact Eq]).
     replace (34 :: s ++ 34 :: c2 :: r) with (34 :: a :: q ++ c2 :: r)
       by (change (s ++ 34 :: c2 :: r) with (s ++ [34] ++ c2 :: r); rewrite app_assoc, Eq; reflexivity).
     rewrite peek_token_scan. rewrite (scan_ws_punct 32) by side. eexists; eexists; split; reflexivity.
@@ -1923,12 +2179,28 @@ Section RT.
       repeat (rewrite blen_app || rewrite blen_cons). rewrite ?blen_nil. lia.
   Qed.
 
+  Ltac ready_at2 HR :=
+    match goal with |- Ready ?L ?X _ _ => match type of HR with Ready ?L' ?Y _ _ =>
+      replace L with L'; [replace X with Y; [exact HR|]|] end end.
+
+  Ltac fin_ws2 rest :=
+    match goal with |- context [p_token il id F c_semi (PS (mkS (59 :: 10 :: rest) ?LA ?PP ?LL ?KK ?L2 32 ws_default) None)] =>
+      let st' := fresh "st'" in let E := fresh "E" in let HRd := fresh "HRd" in
+      destruct (finish_semi_ws rest LA PP LL KK L2 ltac:(lia) ltac:(lia)) as (st' & E & HRd);
+      rewrite E; unfold ret; cbn [elab_def kwtok t_pos]; exists st'; split; [|ready_at2 HRd] end.
+
+  Ltac str_nl t Ht :=
+    match goal with |- context [p_string il id F (PS (mkS (34 :: t ++ 34 :: 32 :: ?r) ?LA ?PP ?LL ?KK ?L2 32 ws_default) None)] =>
+      let k' := fresh "k'" in let ll' := fresh "ll'" in let Hk' := fresh "Hk'" in let Es := fresh "Es" in
+      destruct (p_string_nl_ws t 32 r LA PP LL KK L2 Ht ltac:(unfold ascii; lia) ltac:(lia) ltac:(lia)) as (k' & ll' & Hk' & Es);
+      rewrite Es; rewrite stepS_plain by discriminate end.
+
   Lemma step_comment : forall o t rest R line off ll, wf_sdef (SComment o t) ->
     print_def (SComment o t) ++ rest = kw_comment ++ 32 :: R ->
     (length (print_def (SComment o t)) + 4 <= F)%nat ->
     exists st', parse_comment il id F (canon line off kw_comment 32 R ll)
                 = POk (elab_def line off (SComment o t)) st'
-                /\ Ready (line + 1) (off + blen (print_def (SComment o t))) rest st'.
+                /\ Ready (line + def_lines (SComment o t)) (off + blen (print_def (SComment o t))) rest st'.
   Proof.
     intros o t rest R line off ll (Ho & Ht) HR HF.
     assert (Hk : blen kw_comment = 3) by reflexivity. pose proof (blen_nonneg t).
@@ -1938,11 +2210,11 @@ Section RT.
       unfold parse_comment, canon. unfold bind at 1. rewrite p_keyword_canon. rewrite stepS_plain by discriminate.
       unfold bind at 1.
       match goal with |- context [optional_object_type il id F (PS (mkS _ ?LA ?PP ?LL ?KK ?L2 32 ws_default) None)] =>
-        destruct (quote_peek t 32 (59 :: 10 :: rest) LA PP LL KK L2 Ht ltac:(unfold ascii; lia) ltac:(lia) ltac:(lia))
+        destruct (quote_peek_n t 32 (59 :: 10 :: rest) LA PP LL KK L2 Ht ltac:(unfold ascii; lia) ltac:(lia) ltac:(lia))
           as (tk & st1 & Epk & Ety) end.
       rewrite (opt_obj_none _ _ _ Epk Ety). unfold bind at 1. cbn [object_ref]. unfold ret at 1. cbv beta iota.
-      unfold bind at 1. rewrite (p_string_after_peek _ _ _ Epk). rewrite p_string_ws by side. rewrite stepS_plain by discriminate.
-      unfold bind at 1. fin_ws rest; [reflexivity|].
+      unfold bind at 1. rewrite (p_string_after_peek _ _ _ Epk). str_nl t Ht.
+      unfold bind at 1. fin_ws2 rest; [reflexivity| |cbn [def_lines]; lia].
       cbn [print_def print_obj]. repeat (rewrite blen_app || rewrite blen_cons). rewrite ?blen_nil. lia.
     - (* CM_ BU_ node "text" ; *)
       prep HR HF kw_comment. unfold kw_nodes in HF. cbn [length] in HF. pose proof (blen_nonneg n).
@@ -1952,8 +2224,8 @@ Section RT.
       unfold bind at 1. rewrite (opt_obj_kw kw_nodes OtNode) by side. rewrite stepS_plain by discriminate.
       unfold bind at 1. cbn [object_ref]. unfold bind at 1. rewrite p_identifier_ws by side. rewrite stepS_plain by discriminate.
       unfold ret at 1. cbv beta iota.
-      unfold bind at 1. rewrite p_string_ws by side. rewrite stepS_plain by discriminate.
-      unfold bind at 1. fin_ws rest; [reflexivity|].
+      unfold bind at 1. str_nl t Ht.
+      unfold bind at 1. fin_ws2 rest; [reflexivity| |cbn [def_lines]; lia].
       cbn [print_def print_obj]. repeat (rewrite blen_app || rewrite blen_cons). rewrite ?blen_nil. lia.
     - (* CM_ BO_ id "text" ; *)
       destruct Ho as (Hi & Hv). prep HR HF kw_comment. unfold kw_message in HF. cbn [length] in HF. pose proof (blen_nonneg i).
@@ -1963,8 +2235,8 @@ Section RT.
       unfold bind at 1. rewrite (opt_obj_kw kw_message OtMessage) by side. rewrite stepS_plain by discriminate.
       unfold bind at 1. cbn [object_ref]. unfold bind at 1. rewrite p_message_id_ws by side. rewrite stepS_plain by discriminate.
       unfold ret at 1. cbv beta iota.
-      unfold bind at 1. rewrite p_string_ws by side. rewrite stepS_plain by discriminate.
-      unfold bind at 1. fin_ws rest; [reflexivity|].
+      unfold bind at 1. str_nl t Ht.
+      unfold bind at 1. fin_ws2 rest; [reflexivity| |cbn [def_lines]; lia].
       cbn [print_def print_obj]. repeat (rewrite blen_app || rewrite blen_cons). rewrite ?blen_nil. lia.
     - (* CM_ SG_ id name "text" ; *)
       destruct Ho as ((Hi & Hv) & Hn). prep HR HF kw_comment. unfold kw_signal in HF. cbn [length] in HF.
@@ -1976,8 +2248,8 @@ Section RT.
       unfold bind at 1. cbn [object_ref]. unfold bind at 1. rewrite p_message_id_ws by side. rewrite stepS_plain by discriminate.
       unfold bind at 1. rewrite p_identifier_ws by side. rewrite stepS_plain by discriminate.
       unfold ret at 1. cbv beta iota.
-      unfold bind at 1. rewrite p_string_ws by side. rewrite stepS_plain by discriminate.
-      unfold bind at 1. fin_ws rest; [reflexivity|].
+      unfold bind at 1. str_nl t Ht.
+      unfold bind at 1. fin_ws2 rest; [reflexivity| |cbn [def_lines]; lia].
       cbn [print_def print_obj]. repeat (rewrite blen_app || rewrite blen_cons). rewrite ?blen_nil. lia.
     - (* CM_ EV_ name "text" ; *)
       prep HR HF kw_comment. unfold kw_envvar in HF. cbn [length] in HF. pose proof (blen_nonneg n).
@@ -1987,8 +2259,8 @@ Section RT.
       unfold bind at 1. rewrite (opt_obj_kw kw_envvar OtEnvVar) by side. rewrite stepS_plain by discriminate.
       unfold bind at 1. cbn [object_ref]. unfold bind at 1. rewrite p_identifier_ws by side. rewrite stepS_plain by discriminate.
       unfold ret at 1. cbv beta iota.
-      unfold bind at 1. rewrite p_string_ws by side. rewrite stepS_plain by discriminate.
-      unfold bind at 1. fin_ws rest; [reflexivity|].
+      unfold bind at 1. str_nl t Ht.
+      unfold bind at 1. fin_ws2 rest; [reflexivity| |cbn [def_lines]; lia].
       cbn [print_def print_obj]. repeat (rewrite blen_app || rewrite blen_cons). rewrite ?blen_nil. lia.
   Qed.
 
@@ -2048,9 +2320,9 @@ Section RT.
     repeat (apply orb_true_iff in H; destruct H as [H|H]); try (apply andb_true_iff in H; destruct H); lia.
   Qed.
 
-  Lemma ident_plain : forall n, ident_valid n = true -> Forall plain_char n.
+  Lemma ident_plain : forall n, ident_valid n = true -> str_ok n.
   Proof.
-    intros n H. destruct (ident_valid_shape n H) as (c0 & t & -> & H0 & Ht). constructor.
+    intros n H. apply plain_str_ok. destruct (ident_valid_shape n H) as (c0 & t & -> & H0 & Ht). constructor.
     - apply idc_plain, id0_idc, H0.
     - eapply Forall_impl; [|exact Ht]. intros a Ha. apply idc_plain, Ha.
   Qed.
@@ -2088,28 +2360,33 @@ Section RT.
     unfold ret. f_equal. f_equal. apply stepS_eq; rewrite En, blen_cons; lia.
   Qed.
 
-  (** p.int() on a pending space followed by [-]digits and [c] *)
+  (** p.int() on a pending space followed by a (signed) number literal and [c] *)
   Lemma p_int_ws : forall n c r last pos l k ll,
-    wf_num n -> numterm c -> (length (print_num n) + 3 < F)%nat -> 0 <= k ->
+    wf_num n -> numterm c -> (length (print_num n) + 5 < F)%nat -> 0 <= k ->
     p_int il id F (PS (mkS (print_num n ++ c :: r) last pos l k ll 32 ws_default) None)
     = POk (num_int n) (PS (stepS c r (pos + blen (print_num n)) l (k + blen (print_num n)) ll c ws_default) None).
   Proof.
-    intros [neg ds] c r last pos l k ll ((d0 & t & Hds & Hd & Ht & Hz) & Hpf) Hc HF Hk.
-    cbn [n_neg n_digits] in *. subst ds. unfold print_num, num_int in *. cbn [n_neg n_digits] in *.
-    destruct (parse_float (d0 :: t)) as [bits|] eqn:Epf; [|contradiction Hpf; reflexivity].
+    intros n c r last pos l k ll Hn Hc HF Hk.
+    destruct (num_shape n Hn) as (d0 & t0 & El & Hd & Ht & Hz & Hfp & Hex & Hpf).
+    unfold print_num, num_int in *. rewrite El in *.
+    destruct (parse_float (d0 :: lit_tail t0 (n_frac n) (n_exp n))) as [bits|] eqn:Epf; [|contradiction Hpf; reflexivity].
     destruct (decimal_ge d0 Hd) as (H33 & Ha0 & H10).
-    unfold p_int, optional_minus, bind. rewrite peek_token_scan. destruct neg; cbn [app]; cbn [app length] in HF.
+    unfold p_int, optional_minus, bind. rewrite peek_token_scan. destruct (n_neg n); cbn [app]; cbn [app length] in HF.
     - rewrite (scan_ws_punct 32) by side.
       cbn [t_typ]. change (45 =? c_minus) with true. cbv beta iota.
       erewrite p_token_look by reflexivity. unfold ret at 1. rewrite next_token_scan.
       rewrite stepS_plain by assumption.
-      rewrite scan_direct_uint; try assumption; try lia; [|exact ws_def].
-      cbn [t_typ t_txt]. change (TInt =? TInt) with true. cbn [negb andb]. rewrite Epf. unfold ret.
+      destruct (scan_direct_lit d0 t0 (n_frac n) (n_exp n) c r (pos + 1 + 1) l (k + 1 + 1) ll ws_default ws_def ltac:(lia) ltac:(lia)
+                  Hd Ht Hz Hfp Hex Hc) as (typ & Hty & E).
+      rewrite E. cbn [t_typ t_txt]. rewrite (num_typ_ok typ Hty). rewrite Epf. unfold ret.
       f_equal. f_equal. apply stepS_eq; rewrite !blen_cons; lia.
-    - change (d0 :: t ++ c :: r) with ((d0 :: t) ++ c :: r).
-      rewrite (scan_ws_uint 32); try assumption; [|exact ws32|exact ws_def|lia].
-      cbn [t_typ]. change (TInt =? c_minus) with false. cbv beta iota. unfold ret at 1. rewrite next_token_look.
-      cbn [t_typ t_txt]. change (TInt =? TInt) with true. cbn [negb andb]. rewrite Epf. unfold ret.
+    - destruct (scan_ws_lit 32 d0 t0 (n_frac n) (n_exp n) c r last pos l k ll ws_default ws32 ws_def ltac:(lia) Hk Hd Ht Hz Hfp Hex Hc)
+        as (typ & Hty & E).
+      change (d0 :: lit_tail t0 (n_frac n) (n_exp n) ++ c :: r) with ((d0 :: lit_tail t0 (n_frac n) (n_exp n)) ++ c :: r).
+      rewrite E. cbn [t_typ].
+      assert (Enm : (typ =? c_minus) = false) by (destruct Hty as [-> | ->]; reflexivity). rewrite Enm.
+      cbv beta iota. unfold ret at 1. rewrite next_token_look.
+      cbn [t_typ t_txt]. rewrite (num_typ_ok typ Hty). rewrite Epf. unfold ret.
       f_equal. f_equal. apply stepS_eq; rewrite !blen_cons; lia.
   Qed.
 
@@ -2225,7 +2502,7 @@ Section RT.
   Qed.
 
   Lemma comma_strings_semi_run : forall vs f racc TAIL c2 r last P l K ll,
-    32 :: TAIL = enum_list vs ++ 32 :: 59 :: c2 :: r -> Forall (Forall plain_char) vs -> ascii c2 ->
+    32 :: TAIL = enum_list vs ++ 32 :: 59 :: c2 :: r -> Forall str_ok vs -> ascii c2 ->
     (length vs < f)%nat -> (length (enum_list vs) + 4 < F)%nat -> 0 <= K ->
     exists tk, comma_strings_loop il id F f racc (PS (mkS TAIL last P l K ll 32 ws_default) None)
                = POk (rev racc ++ vs)
@@ -2333,21 +2610,21 @@ Section RT.
     - destruct (peek_ws_punct 32 59 10 rest last P l K ll ws_default) as (tk & Ep & Ety); try side.
       eexists; eexists; split; [exact Ep|rewrite Ety; discriminate].
     - assert (Hn : wf_num n) by (destruct (lookup_ctx name ctx) as [[[] ?]|]; try contradiction; exact Hw).
-      destruct (value_peek (n, []) (59 :: 10 :: rest) last P l K ll (conj Hn (Forall_nil _))
+      destruct (value_peek (n, []) (59 :: 10 :: rest) last P l K ll (conj Hn str_nil)
                   ltac:(cbn [fst]; lia) HK) as (t & st1 & Ep & Hty).
-      eexists; eexists; split; [exact Ep|]. destruct Hty as [-> | ->]; discriminate.
+      eexists; eexists; split; [exact Ep|]. destruct Hty as [-> | [-> | ->]]; discriminate.
     - assert (Hn : wf_num n) by (destruct (lookup_ctx name ctx) as [[[] ?]|]; try contradiction; exact Hw).
-      destruct (value_peek (n, []) (59 :: 10 :: rest) last P l K ll (conj Hn (Forall_nil _))
+      destruct (value_peek (n, []) (59 :: 10 :: rest) last P l K ll (conj Hn str_nil)
                   ltac:(cbn [fst]; lia) HK) as (t & st1 & Ep & Hty).
-      eexists; eexists; split; [exact Ep|]. destruct Hty as [-> | ->]; discriminate.
-    - assert (Hs : Forall plain_char s) by (destruct (lookup_ctx name ctx) as [[[] ?]|]; try contradiction; exact Hw).
+      eexists; eexists; split; [exact Ep|]. destruct Hty as [-> | [-> | ->]]; discriminate.
+    - assert (Hs : str_ok s) by (destruct (lookup_ctx name ctx) as [[[] ?]|]; try contradiction; exact Hw).
       unfold print_quoted in *. rewrite <- app_assoc. cbn [app]. cbn [app length] in HF. rewrite app_length in HF.
       destruct (quote_peek s 32 (59 :: 10 :: rest) last P l K ll Hs ltac:(unfold ascii; lia) ltac:(lia) HK) as (tk & st1 & Ep & Ety).
       eexists; eexists; split; [exact Ep|rewrite Ety; discriminate].
     - assert (Hi : wf_uint i) by (destruct (lookup_ctx name ctx) as [[[] ?]|]; try contradiction; apply Hw).
       destruct Hi as ((d0 & t & -> & Hd & Ht & Hz) & _). rewrite peek_token_scan.
       rewrite (scan_ws_uint 32); try side; [|cbn [length] in HF; lia]. eexists; eexists; split; [reflexivity|discriminate].
-    - assert (Hs : Forall plain_char s) by (destruct (lookup_ctx name ctx) as [[[] ?]|]; try contradiction; exact Hw).
+    - assert (Hs : str_ok s) by (destruct (lookup_ctx name ctx) as [[[] ?]|]; try contradiction; exact Hw).
       unfold print_quoted in *. rewrite <- app_assoc. cbn [app]. cbn [app length] in HF. rewrite app_length in HF.
       destruct (quote_peek s 32 (59 :: 10 :: rest) last P l K ll Hs ltac:(unfold ascii; lia) ltac:(lia) HK) as (tk & st1 & Ep & Ety).
       eexists; eexists; split; [exact Ep|rewrite Ety; discriminate].
@@ -2535,10 +2812,10 @@ Section RT.
       repeat (rewrite app_length in HF || cbn [length] in HF).
       pose proof (blen_nonneg (print_num a)). pose proof (blen_nonneg (print_num b)).
       match goal with |- context [PS (mkS ?TT ?LA ?PP ?LL ?KK ?L2 32 ws_default) None] =>
-        destruct (value_peek (a, []) (print_num b ++ 32 :: 59 :: 10 :: rest) LA PP LL KK L2 (conj Ha (Forall_nil _))
+        destruct (value_peek (a, []) (print_num b ++ 32 :: 59 :: 10 :: rest) LA PP LL KK L2 (conj Ha str_nil)
                     ltac:(cbn [fst]; lia) ltac:(lia)) as (tk & st1 & Epk & Hty) end.
       cbn [fst] in Epk.
-      assert (Ens : (t_typ tk =? c_semi) = false) by (destruct Hty as [-> | ->]; reflexivity).
+      assert (Ens : (t_typ tk =? c_semi) = false) by (destruct Hty as [-> | [-> | ->]]; reflexivity).
       unfold bind at 1. unfold bind at 1. rewrite Epk, Ens. cbn [negb].
       unfold bind at 1. rewrite (p_int_after_peek _ _ _ Epk). rewrite p_int_ws by side. rewrite stepS_plain by discriminate.
       unfold bind at 1. rewrite p_int_ws by side. rewrite stepS_plain by discriminate.
@@ -2553,10 +2830,10 @@ Section RT.
       repeat (rewrite app_length in HF || cbn [length] in HF).
       pose proof (blen_nonneg (print_num a)). pose proof (blen_nonneg (print_num b)).
       match goal with |- context [PS (mkS ?TT ?LA ?PP ?LL ?KK ?L2 32 ws_default) None] =>
-        destruct (value_peek (a, []) (print_num b ++ 32 :: 59 :: 10 :: rest) LA PP LL KK L2 (conj Ha (Forall_nil _))
+        destruct (value_peek (a, []) (print_num b ++ 32 :: 59 :: 10 :: rest) LA PP LL KK L2 (conj Ha str_nil)
                     ltac:(cbn [fst]; lia) ltac:(lia)) as (tk & st1 & Epk & Hty) end.
       cbn [fst] in Epk.
-      assert (Ens : (t_typ tk =? c_semi) = false) by (destruct Hty as [-> | ->]; reflexivity).
+      assert (Ens : (t_typ tk =? c_semi) = false) by (destruct Hty as [-> | [-> | ->]]; reflexivity).
       unfold bind at 1. unfold bind at 1. rewrite Epk, Ens. cbn [negb].
       unfold bind at 1. rewrite (p_int_after_peek _ _ _ Epk). rewrite p_int_ws by side. rewrite stepS_plain by discriminate.
       unfold bind at 1. rewrite p_int_ws by side. rewrite stepS_plain by discriminate.
@@ -2593,10 +2870,10 @@ Section RT.
       repeat (rewrite app_length in HF || cbn [length] in HF).
       pose proof (blen_nonneg (print_num a)). pose proof (blen_nonneg (print_num b)).
       match goal with |- context [PS (mkS ?TT ?LA ?PP ?LL ?KK ?L2 32 ws_default) None] =>
-        destruct (value_peek (a, []) (print_num b ++ 32 :: 59 :: 10 :: rest) LA PP LL KK L2 (conj Ha (Forall_nil _))
+        destruct (value_peek (a, []) (print_num b ++ 32 :: 59 :: 10 :: rest) LA PP LL KK L2 (conj Ha str_nil)
                     ltac:(cbn [fst]; lia) ltac:(lia)) as (tk & st1 & Epk & Hty) end.
       cbn [fst] in Epk.
-      assert (Ens : (t_typ tk =? c_semi) = false) by (destruct Hty as [-> | ->]; reflexivity).
+      assert (Ens : (t_typ tk =? c_semi) = false) by (destruct Hty as [-> | [-> | ->]]; reflexivity).
       cbn [attr_body_type]. unfold bind at 1. unfold bind at 1. rewrite Epk, Ens. cbn [negb].
       unfold bind at 1. rewrite (p_float_after_peek _ _ _ Epk). rewrite p_float_ws by side. rewrite stepS_plain by discriminate.
       unfold bind at 1. rewrite p_float_ws by side. rewrite stepS_plain by discriminate.
@@ -2711,6 +2988,122 @@ Section RT.
       cbn [print_def print_attr_obj]. unfold print_quoted. repeat (rewrite blen_app || rewrite blen_cons). rewrite ?blen_nil. lia.
   Qed.
 
+  (** ------------------------------------------------------------ NS_ *)
+
+  (** the identifier that starts a text is determined by the text (longest match) *)
+  Lemma idc_prefix_unique : forall t t' c c' r r',
+    Forall (fun a => idc a = true) t -> Forall (fun a => idc a = true) t' -> idc c = false -> idc c' = false ->
+    t ++ c :: r = t' ++ c' :: r' -> t = t' /\ c = c' /\ r = r'.
+  Proof.
+    induction t as [|a t IH]; intros t' c c' r r' Ht Ht' Hc Hc' E; destruct t' as [|a' t']; cbn [app] in E.
+    - injection E as -> ->. auto.
+    - injection E as -> _. inversion Ht' as [|? ? Ha _]; subst. congruence.
+    - injection E as -> _. inversion Ht as [|? ? Ha _]; subst. congruence.
+    - injection E as -> E. inversion Ht as [|? ? _ Ht0]; subst. inversion Ht' as [|? ? _ Ht0']; subst.
+      destruct (IH t' c c' r r' Ht0 Ht0' Hc Hc' E) as (-> & -> & ->). auto.
+  Qed.
+
+  Lemma decomp_unique : forall kw kw' c c' r r', is_ident kw -> is_ident kw' -> idc c = false -> idc c' = false ->
+    kw ++ c :: r = kw' ++ c' :: r' -> kw = kw' /\ c = c' /\ r = r'.
+  Proof.
+    intros kw kw' c c' r r' (c0 & t & -> & H0 & Ht) (c0' & t' & -> & H0' & Ht') Hc Hc' E.
+    apply (idc_prefix_unique (c0 :: t) (c0' :: t')); try assumption; constructor; try assumption; apply id0_idc; assumption.
+  Qed.
+
+  Lemma ws_tab_lf : is_ws ws_sig_tab 10 = true. Proof. reflexivity. Qed.
+  Lemma ws_tab_tab : is_ws ws_sig_tab 9 = false. Proof. reflexivity. Qed.
+  Lemma ws_tab_ok : ws_ok ws_sig_tab. Proof. right. right. reflexivity. Qed.
+  Lemma punct_tab : punct 9. Proof. repeat split; try reflexivity; unfold ascii; lia. Qed.
+
+  (** the state after the symbol loop has peeked what follows the NS_ block *)
+  Lemma ns_end : forall following P line K, rest_top following -> (1 <= F)%nat ->
+    exists tok sc', peek_token (PS (mkS following [10] P line 0 K 10 ws_sig_tab) None) = POk tok (PS sc' (Some tok))
+                    /\ t_typ tok <> c_tab
+                    /\ Ready line P following (PS (set_ws sc' ws_default) (Some tok)).
+  Proof.
+    intros following P line K Htop HF. rewrite peek_token_scan.
+    destruct Htop as [->|(kw & c & r & -> & Hk & Hc & Hnc & Hf & _)].
+    - destruct (scan_ws_eof 10 [10] P line 0 K ws_sig_tab ws_tab_lf HF) as (tok & s' & E & Ht). rewrite E.
+      exists tok, s'. split; [reflexivity|]. split; [rewrite Ht; discriminate|]. split.
+      + intros _. rewrite peek_token_look. eexists; eexists; split; [reflexivity|exact Ht].
+      + intros kw c r E'. destruct kw; discriminate E'.
+    - pose proof Hk as (c0 & t & -> & H0 & Ht).
+      rewrite (scan_ws_ident 10); try assumption; try lia; [|exact ws_tab_lf|exact ws_tab_ok|cbn [length] in Hf; lia].
+      eexists; eexists. split; [reflexivity|]. split; [discriminate|]. split.
+      + intros E'. discriminate E'.
+      + intros kw' c' r' E' Hk' Hc' Hnc' Hf'.
+        destruct (decomp_unique _ _ _ _ _ _ Hk Hk' Hnc Hnc' E') as (<- & <- & <-).
+        exists K. rewrite peek_token_look. rewrite set_ws_stepS.
+        apply POk_canon_eq; [unfold kwtok; apply tok_eq; lia | apply stepS_eq; rewrite blen_cons; lia].
+  Qed.
+
+  Lemma ns_loop_run : forall syms f racc following P line K,
+    rest_top following -> Forall (fun s => ident_valid s = true) syms ->
+    (length syms < f)%nat -> (length (ns_text syms) + 4 < F)%nat ->
+    exists tok sc', new_symbols_loop il id F f racc (PS (mkS (ns_text syms ++ following) [10] P line 0 K 10 ws_sig_tab) None)
+                    = POk (rev racc ++ syms) (PS sc' (Some tok))
+                    /\ Ready (line + Z.of_nat (length syms)) (P + blen (ns_text syms)) following (PS (set_ws sc' ws_default) (Some tok)).
+  Proof.
+    induction syms as [|s syms IH]; intros f racc following P line K Htop Hw Hf HF; (destruct f as [|f]; [cbn in Hf; lia|]).
+    - cbn [ns_text map concat app length]. rewrite blen_nil, !Z.add_0_r.
+      destruct (ns_end following P line K Htop ltac:(lia)) as (tok & sc' & Ep & Hty & HR).
+      cbn [new_symbols_loop]. unfold bind at 1. rewrite Ep. apply Z.eqb_neq in Hty. rewrite Hty. unfold ret.
+      rewrite app_nil_r. exists tok, sc'. split; [reflexivity|exact HR].
+    - apply Forall_cons_iff in Hw. destruct Hw as (Hs & Hw').
+      destruct (ident_valid_shape s Hs) as (c0 & t & Es & H0 & Ht). destruct (id0_ge c0 H0) as (H33 & Ha0 & H10).
+      unfold ns_text in *. cbn [map concat] in *. fold (ns_text syms) in *.
+      assert (HFs : (length t + length (ns_text syms) + 7 < F)%nat).
+      { rewrite Es in HF. repeat (rewrite app_length in HF || cbn [length] in HF). lia. }
+      pose proof (blen_nonneg t) as Hnt.
+      rewrite Es. cbn [app]. rewrite <- !app_assoc. cbn [app].
+      cbn [new_symbols_loop]. unfold bind at 1. rewrite peek_token_scan.
+      rewrite sc_scan_skip1; [|lia|exact ws_tab_lf|unfold ascii; lia|exact ws_tab_tab].
+      rewrite stepS_plain by discriminate. rewrite scan_body_punct by (try exact punct_tab; assumption).
+      cbn [t_typ]. change (9 =? c_tab) with true. cbv iota. unfold bind at 1.
+      erewrite p_token_look by reflexivity. unfold bind at 1.
+      rewrite stepS_plain by assumption.
+      unfold p_identifier. unfold bind at 1. rewrite next_token_scan.
+      rewrite sc_scan_direct; cbn [s_ch s_ws mkS]; [|unfold ascii, NOCHAR in *; lia|apply ws_printable; [exact ws_tab_ok|assumption]].
+      rewrite scan_body_ident; try assumption; try lia; [|unfold ascii; lia|reflexivity].
+      cbn [t_typ t_txt]. change (TIdent =? TIdent) with true. cbn [negb]. rewrite <- Es, Hs. cbn [negb]. unfold ret at 1.
+      unfold stepS at 1. change (10 =? 10) with true. cbv iota.
+      destruct (IH f (s :: racc) following (P + 1 + 1 + blen t + 1) (line + 1) (0 + 1 + 1 + blen t + 1) Htop Hw'
+                  ltac:(cbn in Hf; lia) ltac:(lia)) as (tok & sc' & E & HR).
+      exists tok, sc'. split.
+      + rewrite E. cbn [rev]. rewrite <- app_assoc. reflexivity.
+      + cbn [length]. repeat (rewrite blen_app || rewrite blen_cons). rewrite ?blen_nil.
+        replace (line + Z.of_nat (S (length syms))) with (line + 1 + Z.of_nat (length syms)) by lia.
+        match goal with |- Ready _ ?X _ _ => replace X with (P + 1 + 1 + blen t + 1 + blen (ns_text syms)) by lia end.
+        exact HR.
+  Qed.
+
+  Lemma step_new_symbols : forall syms rest line off ll, wf_sdef (SNewSymbols syms) -> rest_top rest ->
+    (length (print_def (SNewSymbols syms)) + 4 <= F)%nat ->
+    exists st', parse_new_symbols il id F (canon line off kw_new_symbols 32 (58 :: 10 :: ns_text syms ++ rest) ll)
+                = POk (elab_def line off (SNewSymbols syms)) st'
+                /\ Ready (line + def_lines (SNewSymbols syms)) (off + blen (print_def (SNewSymbols syms))) rest st'.
+  Proof.
+    intros syms rest line off ll Hw Htop HF. cbn [wf_sdef print_def] in *.
+    repeat (rewrite app_length in HF || cbn [length] in HF). unfold kw_new_symbols in HF. cbn [length] in HF.
+    assert (Hk : blen kw_new_symbols = 3) by reflexivity.
+    assert (Hl : (length syms <= length (ns_text syms))%nat).
+    { clear. induction syms as [|s syms IH]; cbn [ns_text map concat length]; [lia|]. fold (ns_text syms).
+      rewrite app_length. cbn [length]. lia. }
+    unfold parse_new_symbols, canon. unfold bind at 1. unfold use_whitespace at 1. cbn [p_sc p_look PS]. rewrite set_ws_stepS.
+    unfold bind at 1. rewrite p_keyword_canon. rewrite stepS_plain by discriminate.
+    unfold bind at 1. unfold p_token at 1. unfold bind at 1. rewrite next_token_scan.
+    rewrite (scan_ws_punct 32); try side; [|exact ws_tab_ok].
+    cbn [t_typ]. change (58 =? c_colon) with true. cbn [negb]. unfold ret at 1.
+    unfold stepS at 1. change (10 =? 10) with true. cbv iota.
+    match goal with |- context [PS (mkS _ [10] ?PP ?LL 0 ?KK 10 ws_sig_tab) None] =>
+      destruct (ns_loop_run syms F [] rest PP LL KK Htop Hw ltac:(lia) ltac:(lia)) as (tok & sc' & E & HR) end.
+    unfold bind at 1. rewrite E. unfold bind at 1. unfold use_whitespace, ret. cbn [p_sc p_look PS rev app kwtok t_pos elab_def].
+    eexists. split; [reflexivity|].
+    cbn [def_lines].
+    match goal with |- Ready ?L1 ?X _ _ => match type of HR with Ready ?L2 ?Y _ _ => replace X with Y; [replace L1 with L2 by lia; exact HR|] end end.
+    repeat (rewrite blen_app || rewrite blen_cons). lia.
+  Qed.
+
   (** ------------------------------------------------------------ the whole file *)
 
   Lemma is_ident_version : is_ident kw_version.
@@ -2726,7 +3119,7 @@ Section RT.
     exists kw c r, print_def d ++ rest = kw ++ c :: r /\ is_ident kw /\ ascii c /\ idc c = false
                    /\ (length kw < length (print_def d))%nat /\ bytes_eqb kw kw_signal = false.
   Proof.
-    intros d rest Hw. destruct d as [s|[[b [[b1 b2]|]]|]|ns|mi mn msz mtx sigs|kw ts|co ct|[vi|] vn vvs|tn tvs|svi svn svc svt|xi xtxs|en et emn emx eu einit ei eacc enode enodes|dn dsz|ao an ab|dfn dfv|avn avo avv]; cbn [print_def wf_sdef] in *.
+    intros d rest Hw. destruct d as [s|[[b [[b1 b2]|]]|]|ns|mi mn msz mtx sigs|kw ts|co ct|[vi|] vn vvs|tn tvs|svi svn svc svt|xi xtxs|en et emn emx eu einit ei eacc enode enodes|dn dsz|ao an ab|dfn dfv|avn avo avv|nsy]; cbn [print_def wf_sdef] in *.
     - exists kw_version, 32, (34 :: s ++ [34; 10] ++ rest). rewrite <- app_assoc. cbn [app]. rewrite <- app_assoc.
       split; [reflexivity|]. split; [exact is_ident_version|]. split; [unfold ascii; lia|]. split; [reflexivity|].
       split; [|reflexivity]. rewrite app_length. cbn [length]. lia.
@@ -2786,6 +3179,9 @@ Section RT.
     - eexists kw_attribute_value, 32, _. rewrite <- app_assoc. cbn [app].
       split; [reflexivity|]. split; [exact (ident_valid_shape kw_attribute_value eq_refl)|]. split; [unfold ascii; lia|]. split; [reflexivity|].
       split; [|reflexivity]. rewrite app_length. cbn [length]. lia.
+    - eexists kw_new_symbols, 32, _. rewrite <- app_assoc. cbn [app].
+      split; [reflexivity|]. split; [exact (ident_valid_shape kw_new_symbols eq_refl)|]. split; [unfold ascii; lia|]. split; [reflexivity|].
+      split; [|reflexivity]. rewrite app_length. cbn [length]. lia.
   Qed.
 
   Lemma wf_defs_Forall : forall ds ctx, wf_defs ctx ds -> Forall wf_sdef ds.
@@ -2824,7 +3220,7 @@ Section RT.
     let H := fresh in
     pose proof HF as H; cbn [print_def] in H; repeat (rewrite app_length in H || cbn [length] in H);
     unfold kw_comment, kw_value_descriptions, kw_value_table, kw_signal_value_type, kw_message_transmitters, kw_envvar,
-      kw_envvar_data, kw_attribute, kw_attribute_default, kw_attribute_value in *; cbn [length] in *; lia.
+      kw_envvar_data, kw_attribute, kw_attribute_default, kw_attribute_value, kw_new_symbols in *; cbn [length] in *; lia.
 
   (** one definition: from the canonical state at its keyword, the dispatched parser returns its
       denotation and leaves the parser ready at the next line *)
@@ -2837,7 +3233,7 @@ Section RT.
   Proof.
     intros d rest defs ctx line off Hag Hwc Htop HF st (_ & HR). pose proof (rest_top_ok rest Htop) as Hok.
     pose proof Hwc as (Hw & Hwv).
-    destruct d as [s|[[b [[b1 b2]|]]|]|ns|mi mn msz mtx sigs|kw ts|co ct|[vi|] vn vvs|tn tvs|svi svn svc svt|xi xtxs|en et emn emx eu einit ei eacc enode enodes|dn dsz|ao an ab|dfn dfv|avn avo avv]; cbn [wf_sdef elab_def elab_def_ctx] in *.
+    destruct d as [s|[[b [[b1 b2]|]]|]|ns|mi mn msz mtx sigs|kw ts|co ct|[vi|] vn vvs|tn tvs|svi svn svc svt|xi xtxs|en et emn emx eu einit ei eacc enode enodes|dn dsz|ao an ab|dfn dfv|avn avo avv|nsy]; cbn [wf_sdef elab_def elab_def_ctx] in *.
     - (* VERSION *)
       destruct (HR kw_version 32 (34 :: s ++ 34 :: 10 :: rest)) as (ll & Ep);
         [cbn [print_def]; rewrite <- app_assoc; cbn [app]; rewrite <- app_assoc; reflexivity
@@ -2964,6 +3360,12 @@ Section RT.
       destruct (HR kw_attribute_value 32 R ER (ident_valid_shape kw_attribute_value eq_refl)) as (ll & Ep); [unfold ascii; lia|reflexivity|fuel2 HF|].
       destruct (step_attr_value ctx defs avn avo avv rest R line off ll Hag Hwc ER ltac:(lia)) as (st2 & E & HR2).
       eexists kw_attribute_value, _, st2. split; [exact Ep|]. split; [apply peek_keyword_canon|]. split; [exact E|exact HR2].
+    - (* NS_ *)
+      destruct (HR kw_new_symbols 32 (58 :: 10 :: ns_text nsy ++ rest)) as (ll & Ep);
+        [cbn [print_def]; rewrite <- app_assoc; reflexivity
+        |exact (ident_valid_shape kw_new_symbols eq_refl)|unfold ascii; lia|reflexivity|fuel2 HF|].
+      destruct (step_new_symbols nsy rest line off ll Hw Htop ltac:(lia)) as (st2 & E & HR2).
+      eexists kw_new_symbols, _, st2. split; [exact Ep|]. split; [apply peek_keyword_canon|]. split; [exact E|exact HR2].
   Qed.
 
   Lemma parse_loop_print : forall ds f defs ctx line off st,
@@ -3016,7 +3418,7 @@ Proof.
   induction ds as [|d ds IH]; cbn [print length]; [lia|].
   rewrite app_length.
   assert (1 <= length (print_def d))%nat.
-  { destruct d as [s|[[b [[b1 b2]|]]|]|ns|mi mn msz mtx sigs|kw ts|co ct|[vi|] vn vvs|tn tvs|svi svn svc svt|xi xtxs|en et emn emx eu einit ei eacc enode enodes|dn dsz|ao an ab|dfn dfv|avn avo avv];
+  { destruct d as [s|[[b [[b1 b2]|]]|]|ns|mi mn msz mtx sigs|kw ts|co ct|[vi|] vn vvs|tn tvs|svi svn svc svt|xi xtxs|en et emn emx eu einit ei eacc enode enodes|dn dsz|ao an ab|dfn dfv|avn avo avv|nsy];
       cbn [print_def]; rewrite !app_length; cbn [length]; lia. }
   lia.
 Qed.
@@ -3057,16 +3459,61 @@ Proof.
   intros il id kw ts ds Hu Hw. rewrite parse_print_partial; [reflexivity|]. split; [split; [exact Hu|exact I]|exact Hw].
 Qed.
 
+(** a boolean check of number literals (used for the concrete samples) *)
+Definition digits1b (ds : bytes) : bool :=
+  match ds with d0 :: t => is_decimal d0 && forallb is_decimal t | [] => false end.
+Definition wf_digitsb (ds : bytes) : bool :=
+  match ds with
+  | d0 :: t => is_decimal d0 && forallb is_decimal t && (negb (d0 =? 48) || match t with [] => true | _ => false end)
+  | [] => false
+  end.
+Definition wf_numb (n : snum) : bool :=
+  wf_digitsb (n_digits n)
+  && match n_frac n with Some f => digits1b f | None => true end
+  && match n_exp n with
+     | Some (e, sg, ds) => ((e =? 101) || (e =? 69)) && match sg with Some s0 => (s0 =? 43) || (s0 =? 45) | None => true end && digits1b ds
+     | None => true
+     end
+  && match parse_float (num_lit n) with Some _ => true | None => false end.
+
+Lemma digits1b_ok : forall ds, digits1b ds = true -> digits1 ds.
+Proof.
+  intros [|d0 t] H; [discriminate|]. cbn [digits1b] in H. apply andb_true_iff in H. destruct H as (H1 & H2).
+  exists d0, t. split; [reflexivity|]. split; [exact H1|]. apply (forallb_Forall is_decimal). exact H2.
+Qed.
+
+Lemma wf_numb_ok : forall n, wf_numb n = true -> wf_num n.
+Proof.
+  intros n H. unfold wf_numb in H.
+  apply andb_true_iff in H. destruct H as (H & Hp). apply andb_true_iff in H. destruct H as (H & He).
+  apply andb_true_iff in H. destruct H as (Hd & Hf).
+  split; [|split; [|split]].
+  - destruct (n_digits n) as [|d0 t]; [discriminate|]. cbn [wf_digitsb] in Hd.
+    apply andb_true_iff in Hd. destruct Hd as (Hd & Ho). apply andb_true_iff in Hd. destruct Hd as (Hd0 & Hdt).
+    exists d0, t. split; [reflexivity|]. split; [exact Hd0|]. split; [apply (forallb_Forall is_decimal); exact Hdt|].
+    apply orb_true_iff in Ho. destruct Ho as [Ho|Ho].
+    + left. apply negb_true_iff, Z.eqb_neq in Ho. exact Ho.
+    + right. destruct t; [reflexivity|discriminate].
+  - destruct (n_frac n); [apply digits1b_ok; assumption|exact I].
+  - destruct (n_exp n) as [[[e sg] ds]|]; [|exact I].
+    apply andb_true_iff in He. destruct He as (He & Hds). apply andb_true_iff in He. destruct He as (He & Hsg).
+    split; [|split].
+    + apply orb_true_iff in He. destruct He as [He|He]; apply Z.eqb_eq in He; auto.
+    + destruct sg; [|exact I]. apply orb_true_iff in Hsg. destruct Hsg as [Hsg|Hsg]; apply Z.eqb_eq in Hsg; auto.
+    + apply digits1b_ok. exact Hds.
+  - destruct (parse_float (num_lit n)); [discriminate|discriminate Hp].
+Qed.
+
 (** a concrete well-formed source file with all covered kinds (non-vacuity of the hypotheses) *)
 Definition sample_signal : ssignal :=
   {| ss_name := [83; 112; 101; 101; 100];                     (* Speed *)
      ss_mux := Muxed [51];                                    (* m3 *)
      ss_start := [55]; ss_size := [49; 54];                   (* 7 | 16 *)
      ss_big_endian := true; ss_signed := true;                (* @ 0 - *)
-     ss_factor := {| n_neg := false; n_digits := [49] |};     (* 1 *)
-     ss_offset := {| n_neg := true; n_digits := [52; 48] |};  (* -40 *)
-     ss_min := {| n_neg := true; n_digits := [52; 48] |};     (* -40 *)
-     ss_max := {| n_neg := false; n_digits := [54; 53; 49; 51] |};  (* 6513 *)
+     ss_factor := {| n_neg := false; n_digits := [48]; n_frac := Some [53]; n_exp := None |};     (* 0.5 *)
+     ss_offset := {| n_neg := true; n_digits := [49]; n_frac := Some [53]; n_exp := Some (101, None, [49]) |};  (* -1.5e1 *)
+     ss_min := {| n_neg := true; n_digits := [52; 48]; n_frac := None; n_exp := None |};     (* -40 *)
+     ss_max := {| n_neg := false; n_digits := [54]; n_frac := None; n_exp := Some (69, Some 43, [51]) |};  (* 6E+3 *)
      ss_unit := [107; 109; 47; 104];                          (* km/h *)
      ss_receiver := [69; 67; 85; 50]; ss_receivers := [[69; 67; 85; 49]] |}.
 
@@ -3080,6 +3527,8 @@ Definition sample_ds : list sdef :=
     SBitTiming None;                                                       (* BS_: *)
     SVersion [] ].                                                         (* VERSION "" *)
 
+Local Opaque wf_num.
+
 Lemma sample_ds_wf : Forall wf_sdef sample_ds.
 Proof.
   assert (Hp : forall c, 32 <= c < 127 -> c <> 34 -> c <> 92 -> plain_char c) by (intros; repeat split; lia).
@@ -3087,40 +3536,40 @@ Proof.
                wf_digits (d0 :: t)) by (intros d0 t ? ? ?; exists d0, t; auto).
   assert (Hu : forall d0 t, is_decimal d0 = true -> Forall (fun a => is_decimal a = true) t -> (d0 <> 48 \/ t = []) ->
                uint_value (d0 :: t) < 2 ^ 64 -> wf_uint (d0 :: t)) by (intros; split; auto).
-  assert (Hn : forall neg d0 t, is_decimal d0 = true -> Forall (fun a => is_decimal a = true) t -> (d0 <> 48 \/ t = []) ->
-               parse_float (d0 :: t) <> None -> wf_num {| n_neg := neg; n_digits := d0 :: t |}) by (intros; split; cbn; auto).
   assert (Hsig : wf_signal sample_signal).
   { unfold wf_signal, sample_signal. cbn [ss_name ss_mux ss_start ss_size ss_factor ss_offset ss_min ss_max ss_unit ss_receiver ss_receivers wf_mux].
-    repeat split; try reflexivity;
+    repeat match goal with |- _ /\ _ => split end; try reflexivity;
       try (apply Hd; [reflexivity | repeat constructor | (left; lia) || (right; reflexivity)]);
       try (apply Hu; [reflexivity | repeat constructor | (left; lia) || (right; reflexivity) | vm_compute; reflexivity]);
-      try (apply Hn; [reflexivity | repeat constructor | (left; lia) || (right; reflexivity) | vm_compute; discriminate]);
+      try (apply wf_numb_ok; vm_compute; reflexivity);
+      try (apply str_okb_ok; reflexivity);
       try (vm_compute; reflexivity).
-    - repeat constructor; apply Hp; lia.
-    - repeat constructor. }
-  unfold sample_ds. repeat constructor; cbn [wf_sdef wf_utok];
-    try (apply Hp; lia); try reflexivity; try exact Hsig;
-    try (apply Hu; [reflexivity | repeat constructor | (left; lia) || (right; reflexivity) | vm_compute; reflexivity]).
+    all: repeat constructor; try (apply Hp; lia). }
+  unfold sample_ds. repeat (apply Forall_cons || apply Forall_nil); cbn [wf_sdef wf_utok];
+    repeat match goal with |- _ /\ _ => split end; try reflexivity; try (apply str_okb_ok; reflexivity);
+    try (repeat (apply Forall_cons; [exact Hsig|]); apply Forall_nil);
+    try (apply Hu; [reflexivity | repeat constructor | (left; lia) || (right; reflexivity) | vm_compute; reflexivity]);
+    try (repeat (apply Forall_cons || apply Forall_nil); try (apply Hp; lia); try reflexivity; cbn [wf_utok]).
   all: try (vm_compute; reflexivity).
   all: try (apply Hd; [reflexivity | repeat constructor | (left; lia) || (right; reflexivity)]).
-  all: try lia.
-  all: try discriminate.
-  all: try (repeat constructor).
+  all: try (split; [lia|]; repeat split; try reflexivity; try lia; discriminate).
 Qed.
 
 (** a second well-formed source file, with the one-line kinds that end in " ;" *)
 Definition sample2_ds : list sdef :=
-  [ SComment (ObjSignal [49] [83]) [104; 105];                                  (* CM_ SG_ 1 S "hi" ; *)
-    SComment ObjNone [];                                                          (* CM_ "" ; *)
-    SValues (Some [49]) [83] [({| n_neg := true; n_digits := [49] |}, [97]); ({| n_neg := false; n_digits := [50] |}, [])];
+  [ SNewSymbols [[78; 83; 95; 68; 69; 83; 67; 95]; [67; 77; 95]];                 (* NS_ : / TAB NS_DESC_ / TAB CM_ *)
+    SNewSymbols [];                                                               (* NS_ : *)
+    SComment (ObjSignal [49] [83]) [104; 105];                                  (* CM_ SG_ 1 S "hi" ; *)
+    SComment ObjNone [97; 92; 34; 98; 92; 120; 10; 10; 99; 92; 10; 92; 92; 34];      (* CM_ with text a, escaped quote, b, backslash, x, two line ends, c, backslash, line end, backslash, escaped quote *)
+    SValues (Some [49]) [83] [({| n_neg := true; n_digits := [49]; n_frac := None; n_exp := None |}, [97]); ({| n_neg := false; n_digits := [50]; n_frac := None; n_exp := None |}, [])];
                                                                                   (* VAL_ 1 S -1 "a" 2 "" ; *)
     SValues None [69] [];                                                         (* VAL_ E ; *)
-    SValueTable [84] [({| n_neg := false; n_digits := [48] |}, [122])];           (* VAL_TABLE_ T 0 "z" ; *)
+    SValueTable [84] [({| n_neg := false; n_digits := [48]; n_frac := None; n_exp := None |}, [122])];           (* VAL_TABLE_ T 0 "z" ; *)
     SSigValType [49] [83] true [49];                                              (* SIG_VALTYPE_ 1 S : 1 ; *)
     SSigValType [49] [83] false [50];                                             (* SIG_VALTYPE_ 1 S 2 ; *)
     SMsgTx [49] [([65], true); ([66], false)];                                    (* BO_TX_BU_ 1 : A , B ; *)
-    SEnvVar [69] [49] {| n_neg := false; n_digits := [48] |} {| n_neg := false; n_digits := [57] |} [86]
-            {| n_neg := true; n_digits := [51] |} [55] 2 [78] [[77]];              (* EV_ E : 1 [ 0 | 9 ] "V" -3 7 DUMMY_NODE_VECTOR2 N , M ; *)
+    SEnvVar [69] [49] {| n_neg := false; n_digits := [48]; n_frac := None; n_exp := None |} {| n_neg := false; n_digits := [57]; n_frac := None; n_exp := None |} [86]
+            {| n_neg := true; n_digits := [51]; n_frac := None; n_exp := None |} [55] 2 [78] [[77]];              (* EV_ E : 1 [ 0 | 9 ] "V" -3 7 DUMMY_NODE_VECTOR2 N , M ; *)
     SEnvVarData [69] [56] ].                                                      (* ENVVAR_DATA_ E : 8 ; *)
 
 Lemma sample2_ds_wf : Forall wf_sdef sample2_ds.
@@ -3129,14 +3578,17 @@ Proof.
   assert (Hd : forall d0, is_decimal d0 = true -> wf_digits [d0]) by (intros d0 ?; exists d0, []; auto).
   assert (Hu : forall d0, is_decimal d0 = true -> wf_uint [d0]).
   { intros d0 H. split; [auto|]. rewrite uint_value_digit. unfold is_decimal in H. apply andb_true_iff in H. lia. }
-  assert (Hn : forall neg d0, is_decimal d0 = true -> parse_float [d0] <> None -> wf_num {| n_neg := neg; n_digits := [d0] |})
-    by (intros; split; cbn; auto).
   assert (Hm : wf_msgid [49]) by (split; [apply Hu; reflexivity|reflexivity]).
   assert (He : forall d mx, 48 <= d <= 48 + mx -> wf_enum [d] mx) by (intros d mx ?; exists d; auto).
-  unfold sample2_ds. repeat constructor; cbn [wf_sdef wf_obj wf_value fst snd]; try exact Hm; try reflexivity;
+  unfold sample2_ds. repeat (apply Forall_cons || apply Forall_nil); cbn [wf_sdef wf_obj wf_value fst snd];
+    repeat match goal with |- _ /\ _ => split end; try exact Hm; try reflexivity; try (apply str_okb_ok; reflexivity);
+    try (repeat (apply Forall_cons || apply Forall_nil); cbn [wf_value fst snd]; repeat match goal with |- _ /\ _ => split end);
+    try (apply str_okb_ok; reflexivity);
     try (apply Hp; lia); try (apply Hu; reflexivity); try (apply He; lia);
-    try (apply Hn; [reflexivity|vm_compute; discriminate]); try lia.
-  all: repeat constructor; try (apply Hp; lia); try (apply Hn; [reflexivity|vm_compute; discriminate]); try reflexivity.
+    try (apply wf_numb_ok; vm_compute; reflexivity); try lia.
+  all: try (split; cbn [fst snd]); try (apply str_okb_ok; reflexivity); try (apply wf_numb_ok; vm_compute; reflexivity); try reflexivity.
+  all: repeat first [ apply strn_nil | apply strn_nl | apply strn_esc_quote | apply strn_plain; [apply Hp; lia|]
+                    | apply strn_esc; [discriminate|] ].
 Qed.
 
 (** the printed text of the second sample, for the record *)
@@ -3149,36 +3601,34 @@ Proof. apply wf_defs_context_free; [exact sample2_ds_wf|]. unfold sample2_ds. re
 
 (** a third sample: attribute definitions, defaults and values (typed by the first BA_DEF_ of the name) *)
 Definition sample3_ds : list sdef :=
-  [ SAttr AONone [65] (ABInt false (Some ({| n_neg := false; n_digits := [48] |}, {| n_neg := false; n_digits := [49; 48; 48] |})));
+  [ SAttr AONone [65] (ABInt false (Some ({| n_neg := false; n_digits := [48]; n_frac := None; n_exp := None |}, {| n_neg := false; n_digits := [49; 48; 48]; n_frac := None; n_exp := None |})));
                                                                       (* BA_DEF_ "A" INT 0 100 ; *)
     SAttr AOSignal [69] (ABEnum [120] [[121]]);                       (* BA_DEF_ SG_ "E" ENUM "x" , "y" ; *)
     SAttr AOMessage [70] (ABFloat None);                              (* BA_DEF_ BO_ "F" FLOAT ; *)
     SAttr AONode [83] ABString;                                       (* BA_DEF_ BU_ "S" STRING ; *)
     SAttr AOEnvVar [72] (ABInt true None);                            (* BA_DEF_ EV_ "H" HEX ; *)
     SAttr AONone [65] ABString;                                       (* BA_DEF_ "A" STRING ;   (second definition: ignored for typing) *)
-    SAttrDefault [65] (AVInt {| n_neg := false; n_digits := [53] |});           (* BA_DEF_DEF_ "A" 5 ; *)
+    SAttrDefault [65] (AVInt {| n_neg := false; n_digits := [53]; n_frac := None; n_exp := None |});           (* BA_DEF_DEF_ "A" 5 ; *)
     SAttrDefault [69] (AVEnumIndex [49]);                                        (* BA_DEF_DEF_ "E" 1 ; *)
     SAttrDefault [90] AVNone;                                                    (* BA_DEF_DEF_ "Z" ; *)
-    SAttrValue [65] (ObjMessage [49]) (AVInt {| n_neg := true; n_digits := [51] |});     (* BA_ "A" BO_ 1 -3 ; *)
+    SAttrValue [65] (ObjMessage [49]) (AVInt {| n_neg := true; n_digits := [51]; n_frac := None; n_exp := None |});     (* BA_ "A" BO_ 1 -3 ; *)
     SAttrValue [69] (ObjSignal [49] [83]) (AVEnumString [121]);                          (* BA_ "E" SG_ 1 S "y" ; *)
     SAttrValue [83] (ObjNode [78]) (AVString [116]);                                     (* BA_ "S" BU_ N "t" ; *)
-    SAttrValue [70] ObjNone (AVFloat {| n_neg := false; n_digits := [50] |});            (* BA_ "F" 2 ; *)
-    SAttrValue [72] (ObjEnvVar [86]) (AVInt {| n_neg := false; n_digits := [55] |}) ].   (* BA_ "H" EV_ V 7 ; *)
+    SAttrValue [70] ObjNone (AVFloat {| n_neg := false; n_digits := [50]; n_frac := None; n_exp := None |});            (* BA_ "F" 2 ; *)
+    SAttrValue [72] (ObjEnvVar [86]) (AVInt {| n_neg := false; n_digits := [55]; n_frac := None; n_exp := None |}) ].   (* BA_ "H" EV_ V 7 ; *)
 
 Lemma sample3_ds_wf_file : wf_file sample3_ds.
 Proof.
   assert (Hp : forall c, 32 <= c < 127 -> c <> 34 -> c <> 92 -> plain_char c) by (intros; repeat split; lia).
   assert (Hd : forall d0 t, is_decimal d0 = true -> Forall (fun a => is_decimal a = true) t -> (d0 <> 48 \/ t = []) ->
                wf_digits (d0 :: t)) by (intros d0 t ? ? ?; exists d0, t; auto).
-  assert (Hn : forall neg d0 t, is_decimal d0 = true -> Forall (fun a => is_decimal a = true) t -> (d0 <> 48 \/ t = []) ->
-               parse_float (d0 :: t) <> None -> wf_num {| n_neg := neg; n_digits := d0 :: t |}) by (intros; split; cbn; auto).
   assert (Hm : wf_msgid [49]).
   { split; [|reflexivity]. split; [apply Hd; [reflexivity|constructor|right; reflexivity]|vm_compute; reflexivity]. }
   unfold wf_file, sample3_ds. cbn [wf_defs ctx_step app attr_body_type attr_body_enums].
   unfold wf_sdef_ctx, wf_attr_value. cbn [wf_sdef wf_attr_body wf_range wf_obj lookup_ctx bytes_eqb Z.eqb Pos.eqb andb].
   repeat split; try exact Hm; try reflexivity; try exact I;
-    try (apply Hn; [reflexivity | repeat constructor | (left; lia) || (right; reflexivity) | vm_compute; discriminate]);
-    try (repeat constructor; apply Hp; lia);
+    try (apply wf_numb_ok; vm_compute; reflexivity);
+    try (apply str_okb_ok; reflexivity); try (repeat (apply Forall_cons || apply Forall_nil); apply str_okb_ok; reflexivity);
     try (apply Hd; [reflexivity | repeat constructor | right; reflexivity]);
     try (vm_compute; reflexivity).
 Qed.
